@@ -190,7 +190,14 @@ def «SamplerFactory.peerCount» : Nat := 178
 def «SamplerFactory.mutex» : Nat := 179
 def «SamplerFactory.sharedDynsamplers» : Nat := 180
 def «SamplerFactory.goalThroughputConfigs» : Nat := 181
-def «environmentCache.addItem()» : Nat := 182
+def «DeterministicSharder.Config» : Nat := 182
+def «DeterministicSharder.Logger» : Nat := 183
+def «DeterministicSharder.Peers» : Nat := 184
+def «DeterministicSharder.myShard» : Nat := 185
+def «DeterministicSharder.peers» : Nat := 186
+def «DeterministicSharder.hashes» : Nat := 187
+def «DeterministicSharder.peerLock» : Nat := 188
+def «environmentCache.addItem()» : Nat := 189
 end L
 
 /-! Functions and function literals (`Outer$n`) of the analysed packages. -/
@@ -258,610 +265,635 @@ def «DeterministicSampler.GetSampleRate» : Nat := 59
 def «DeterministicSampler.Start» : Nat := 60
 def «DeterministicSampler.Start$1» : Nat := 61
 def «DeterministicSamplerConfig.GetSamplingFields» : Nat := 62
-def «DirectTransmission.EnqueueEvent» : Nat := 63
-def «DirectTransmission.EnqueueEvent$1» : Nat := 64
-def «DirectTransmission.EnqueueSpan» : Nat := 65
-def «DirectTransmission.Start» : Nat := 66
-def «DirectTransmission.Stop» : Nat := 67
-def «DirectTransmission.Stop$1» : Nat := 68
-def «DirectTransmission.dispatchStaleBatches» : Nat := 69
-def «DirectTransmission.dispatchStaleBatches$1» : Nat := 70
-def «DirectTransmission.handleBatchFailure» : Nat := 71
-def «DirectTransmission.handleError» : Nat := 72
-def «DirectTransmission.handleEventError» : Nat := 73
-def «DirectTransmission.registerMetrics» : Nat := 74
-def «DirectTransmission.sendBatch» : Nat := 75
-def «Duration.MarshalText» : Nat := 76
-def «Duration.UnmarshalText» : Nat := 77
-def «DynamicSampler.GetKeyFields» : Nat := 78
-def «DynamicSampler.GetSampleRate» : Nat := 79
-def «DynamicSampler.Start» : Nat := 80
-def «DynamicSampler.Start$1» : Nat := 81
-def «DynamicSamplerConfig.GetSamplingFields» : Nat := 82
-def «EMADynamicSampler.GetKeyFields» : Nat := 83
-def «EMADynamicSampler.GetSampleRate» : Nat := 84
-def «EMADynamicSampler.Start» : Nat := 85
-def «EMADynamicSampler.Start$1» : Nat := 86
-def «EMADynamicSamplerConfig.GetSamplingFields» : Nat := 87
-def «EMAThroughputSampler.GetKeyFields» : Nat := 88
-def «EMAThroughputSampler.GetSampleRate» : Nat := 89
-def «EMAThroughputSampler.Start» : Nat := 90
-def «EMAThroughputSampler.Start$1» : Nat := 91
-def «EMAThroughputSamplerConfig.GetSamplingFields» : Nat := 92
-def «FileConfigError.Error» : Nat := 93
-def «FileConfigError.HasErrors» : Nat := 94
-def «FilePeers.GetInstanceID» : Nat := 95
-def «FilePeers.GetPeers» : Nat := 96
-def «FilePeers.Ready» : Nat := 97
-def «FilePeers.RegisterUpdatedPeersCallback» : Nat := 98
-def «FilePeers.Start» : Nat := 99
-def «FilePeers.Start$1» : Nat := 100
-def «GetCollectorImplementation» : Nat := 101
-def «GetKeyFields» : Nat := 102
-def «GetMetricsImplementation» : Nat := 103
-def «Group.GetDeprecationVersion» : Nat := 104
-def «Group.IsDeprecated» : Nat := 105
-def «HoneycombLoggerConfig.GetSamplerEnabled» : Nat := 106
-def «InMemCollector.AddSpan» : Nat := 107
-def «InMemCollector.AddSpanFromPeer» : Nat := 108
-def «InMemCollector.GetStressedSampleRate» : Nat := 109
-def «InMemCollector.IsMyTrace» : Nat := 110
-def «InMemCollector.ProcessSpanImmediately» : Nat := 111
-def «InMemCollector.Start» : Nat := 112
-def «InMemCollector.Start$1» : Nat := 113
-def «InMemCollector.Stop» : Nat := 114
-def «InMemCollector.Stressed» : Nat := 115
-def «InMemCollector.addAdditionalAttributes» : Nat := 116
-def «InMemCollector.checkAlloc» : Nat := 117
-def «InMemCollector.dealWithSentTrace» : Nat := 118
-def «InMemCollector.getWorkerIDForTrace» : Nat := 119
-def «InMemCollector.isReady» : Nat := 120
-def «InMemCollector.monitor» : Nat := 121
-def «InMemCollector.reloadConfigs» : Nat := 122
-def «InMemCollector.send» : Nat := 123
-def «InMemCollector.sendReloadSignal» : Nat := 124
-def «InMemCollector.sendTraces» : Nat := 125
-def «IsLegacyAPIKey» : Nat := 126
-def «KeptReasonsCache.Get» : Nat := 127
-def «KeptReasonsCache.Set» : Nat := 128
-def «Level.MarshalText» : Nat := 129
-def «Level.String» : Nat := 130
-def «Level.UnmarshalText» : Nat := 131
-def «LoadConfigMetadata» : Nat := 132
-def «LoadRulesMetadata» : Nat := 133
-def «LogsServer.Export» : Nat := 134
-def «MemorySize.MarshalText» : Nat := 135
-def «MemorySize.UnmarshalFlag» : Nat := 136
-def «MemorySize.UnmarshalText» : Nat := 137
-def «Metadata.ClosestNamesTo» : Nat := 138
-def «Metadata.ClosestNamesTo$1» : Nat := 139
-def «Metadata.GetField» : Nat := 140
-def «Metadata.GetGroup» : Nat := 141
-def «Metadata.LoadFrom» : Nat := 142
-def «Metadata.Validate» : Nat := 143
-def «Metadata.ValidateRules» : Nat := 144
-def «MetricType.String» : Nat := 145
-def «MockCollector.AddSpan» : Nat := 146
-def «MockCollector.AddSpanFromPeer» : Nat := 147
-def «MockCollector.Flush» : Nat := 148
-def «MockCollector.GetStressedSampleRate» : Nat := 149
-def «MockCollector.ProcessSpanImmediately» : Nat := 150
-def «MockCollector.Stressed» : Nat := 151
-def «MockConfig.DetermineSamplerKey» : Nat := 152
-def «MockConfig.GetAccessKeyConfig» : Nat := 153
-def «MockConfig.GetAddCountsToRoot» : Nat := 154
-def «MockConfig.GetAddHostMetadataToTrace» : Nat := 155
-def «MockConfig.GetAddRuleReasonToTrace» : Nat := 156
-def «MockConfig.GetAddSpanCountToRoot» : Nat := 157
-def «MockConfig.GetAdditionalAttributes» : Nat := 158
-def «MockConfig.GetAdditionalErrorFields» : Nat := 159
-def «MockConfig.GetAdditionalHeaders» : Nat := 160
-def «MockConfig.GetAllSamplerRules» : Nat := 161
-def «MockConfig.GetCollectionConfig» : Nat := 162
-def «MockConfig.GetCollectorType» : Nat := 163
-def «MockConfig.GetCompressPeerCommunication» : Nat := 164
-def «MockConfig.GetConfigMetadata» : Nat := 165
-def «MockConfig.GetDatasetPrefix» : Nat := 166
-def «MockConfig.GetDebugServiceAddr» : Nat := 167
-def «MockConfig.GetEnvironmentCacheTTL» : Nat := 168
-def «MockConfig.GetGRPCConfig» : Nat := 169
-def «MockConfig.GetGRPCEnabled» : Nat := 170
-def «MockConfig.GetGRPCListenAddr» : Nat := 171
-def «MockConfig.GetGeneralConfig» : Nat := 172
-def «MockConfig.GetHTTPIdleTimeout» : Nat := 173
-def «MockConfig.GetHashes» : Nat := 174
-def «MockConfig.GetHealthCheckTimeout» : Nat := 175
-def «MockConfig.GetHoneycombAPI» : Nat := 176
-def «MockConfig.GetHoneycombLoggerConfig» : Nat := 177
-def «MockConfig.GetIdentifierInterfaceName» : Nat := 178
-def «MockConfig.GetIsDryRun» : Nat := 179
-def «MockConfig.GetListenAddr» : Nat := 180
-def «MockConfig.GetLoggerLevel» : Nat := 181
-def «MockConfig.GetLoggerType» : Nat := 182
-def «MockConfig.GetOTelMetricsConfig» : Nat := 183
-def «MockConfig.GetOTelTracingConfig» : Nat := 184
-def «MockConfig.GetOpAMPConfig» : Nat := 185
-def «MockConfig.GetParentIdFieldNames» : Nat := 186
-def «MockConfig.GetPeerListenAddr» : Nat := 187
-def «MockConfig.GetPeerManagementType» : Nat := 188
-def «MockConfig.GetPeerTimeout» : Nat := 189
-def «MockConfig.GetPeers» : Nat := 190
-def «MockConfig.GetPrometheusMetricsConfig» : Nat := 191
-def «MockConfig.GetQueryAuthToken» : Nat := 192
-def «MockConfig.GetRedisIdentifier» : Nat := 193
-def «MockConfig.GetRedisPeerManagement» : Nat := 194
-def «MockConfig.GetSampleCacheConfig» : Nat := 195
-def «MockConfig.GetSamplerConfigForDestName» : Nat := 196
-def «MockConfig.GetSamplingKeyFieldsForDestName» : Nat := 197
-def «MockConfig.GetStdoutLoggerConfig» : Nat := 198
-def «MockConfig.GetStressReliefConfig» : Nat := 199
-def «MockConfig.GetTraceIdFieldNames» : Nat := 200
-def «MockConfig.GetTracesConfig» : Nat := 201
-def «MockConfig.GetUseIPV6Identifier» : Nat := 202
-def «MockConfig.RegisterReloadCallback» : Nat := 203
-def «MockConfig.Reload» : Nat := 204
-def «MockConfig.SetMaxAlloc» : Nat := 205
-def «MockGRPCHealthWatchServer.GetSentMessages» : Nat := 206
-def «MockGRPCHealthWatchServer.Send» : Nat := 207
-def «MockMetrics.Count» : Nat := 208
-def «MockMetrics.Down» : Nat := 209
-def «MockMetrics.Gauge» : Nat := 210
-def «MockMetrics.Get» : Nat := 211
-def «MockMetrics.GetHistogramCount» : Nat := 212
-def «MockMetrics.Histogram» : Nat := 213
-def «MockMetrics.Increment» : Nat := 214
-def «MockMetrics.Register» : Nat := 215
-def «MockMetrics.Start» : Nat := 216
-def «MockMetrics.Stop» : Nat := 217
-def «MockMetrics.Store» : Nat := 218
-def «MockMetrics.Up» : Nat := 219
-def «MockPeers.GetInstanceID» : Nat := 220
-def «MockPeers.GetPeers» : Nat := 221
-def «MockPeers.Ready» : Nat := 222
-def «MockPeers.RegisterUpdatedPeersCallback» : Nat := 223
-def «MockPeers.Start» : Nat := 224
-def «MockPeers.UpdatePeers» : Nat := 225
-def «MockStressReliever.GetSampleRate» : Nat := 226
-def «MockStressReliever.Recalc» : Nat := 227
-def «MockStressReliever.ShouldSampleDeterministically» : Nat := 228
-def «MockStressReliever.Start» : Nat := 229
-def «MockStressReliever.Stressed» : Nat := 230
-def «MockStressReliever.UpdateFromConfig» : Nat := 231
-def «MockTransmission.EnqueueEvent» : Nat := 232
-def «MockTransmission.EnqueueSpan» : Nat := 233
-def «MockTransmission.GetBlock» : Nat := 234
-def «MockTransmission.RegisterMetrics» : Nat := 235
-def «MockTransmission.Start» : Nat := 236
-def «MockTransmission.Stop» : Nat := 237
-def «MultiMetrics.AddChild» : Nat := 238
-def «MultiMetrics.Children» : Nat := 239
-def «MultiMetrics.Count» : Nat := 240
-def «MultiMetrics.Down» : Nat := 241
-def «MultiMetrics.Gauge» : Nat := 242
-def «MultiMetrics.Get» : Nat := 243
-def «MultiMetrics.Histogram» : Nat := 244
-def «MultiMetrics.Increment» : Nat := 245
-def «MultiMetrics.Register» : Nat := 246
-def «MultiMetrics.Start» : Nat := 247
-def «MultiMetrics.Store» : Nat := 248
-def «MultiMetrics.Up» : Nat := 249
-def «NewCmdEnvOptions» : Nat := 250
-def «NewCollectorWorker» : Nat := 251
-def «NewConfig» : Nat := 252
-def «NewConfigData» : Nat := 253
-def «NewCuckooSentCache» : Nat := 254
-def «NewCuckooTraceChecker» : Nat := 255
-def «NewCuckooTraceChecker$1» : Nat := 256
-def «NewDefaultTransmission» : Nat := 257
-def «NewDirectTransmission» : Nat := 258
-def «NewInMemCache» : Nat := 259
-def «NewInMemCache$1» : Nat := 260
-def «NewInMemCache$2» : Nat := 261
-def «NewKeptReasonsCache» : Nat := 262
-def «NewKeptTraceCacheEntry» : Nat := 263
-def «NewLogsServer» : Nat := 264
-def «NewMockCollector» : Nat := 265
-def «NewMockPeers» : Nat := 266
-def «NewMultiMetrics» : Nat := 267
-def «NewTraceServer» : Nat := 268
-def «NullMetrics.Count» : Nat := 269
-def «NullMetrics.Down» : Nat := 270
-def «NullMetrics.Gauge» : Nat := 271
-def «NullMetrics.Get» : Nat := 272
-def «NullMetrics.Histogram» : Nat := 273
-def «NullMetrics.Increment» : Nat := 274
-def «NullMetrics.Register» : Nat := 275
-def «NullMetrics.Start» : Nat := 276
-def «NullMetrics.Stop» : Nat := 277
-def «NullMetrics.Store» : Nat := 278
-def «NullMetrics.Up» : Nat := 279
-def «OTelMetrics.Count» : Nat := 280
-def «OTelMetrics.Down» : Nat := 281
-def «OTelMetrics.Gauge» : Nat := 282
-def «OTelMetrics.Histogram» : Nat := 283
-def «OTelMetrics.Increment» : Nat := 284
-def «OTelMetrics.Register» : Nat := 285
-def «OTelMetrics.Start» : Nat := 286
-def «OTelMetrics.Start$1» : Nat := 287
-def «OTelMetrics.Start$2» : Nat := 288
-def «OTelMetrics.Start$3» : Nat := 289
-def «OTelMetrics.Start$4» : Nat := 290
-def «OTelMetrics.Stop» : Nat := 291
-def «OTelMetrics.Up» : Nat := 292
-def «OTelMetrics.getOrInitCounter» : Nat := 293
-def «OTelMetrics.getOrInitGauge» : Nat := 294
-def «OTelMetrics.getOrInitHistogram» : Nat := 295
-def «OTelMetrics.getOrInitUpDown» : Nat := 296
-def «ParseLevel» : Nat := 297
-def «PrefixMetricName» : Nat := 298
-def «PromMetrics.Count» : Nat := 299
-def «PromMetrics.Down» : Nat := 300
-def «PromMetrics.Gauge» : Nat := 301
-def «PromMetrics.Histogram» : Nat := 302
-def «PromMetrics.Increment» : Nat := 303
-def «PromMetrics.Register» : Nat := 304
-def «PromMetrics.Start» : Nat := 305
-def «PromMetrics.Start$1» : Nat := 306
-def «PromMetrics.Up» : Nat := 307
-def «RedisPubsubPeers.GetInstanceID» : Nat := 308
-def «RedisPubsubPeers.GetPeers» : Nat := 309
-def «RedisPubsubPeers.Ready» : Nat := 310
-def «RedisPubsubPeers.Ready$1» : Nat := 311
-def «RedisPubsubPeers.RegisterUpdatedPeersCallback» : Nat := 312
-def «RedisPubsubPeers.Start» : Nat := 313
-def «RedisPubsubPeers.checkHash» : Nat := 314
-def «RedisPubsubPeers.listen» : Nat := 315
-def «RedisPubsubPeers.stop» : Nat := 316
-def «Router.AddOTLPMuxxer» : Nat := 317
-def «Router.Check» : Nat := 318
-def «Router.LnS» : Nat := 319
-def «Router.LnS$1» : Nat := 320
-def «Router.SetEnvironmentCache» : Nat := 321
-def «Router.SetEnvironmentCache$1» : Nat := 322
-def «Router.SetType» : Nat := 323
-def «Router.SetVersion» : Nat := 324
-def «Router.Stop» : Nat := 325
-def «Router.Watch» : Nat := 326
-def «Router.alive» : Nat := 327
-def «Router.apiKeyProcessor» : Nat := 328
-def «Router.apiKeyProcessor$1» : Nat := 329
-def «Router.batch» : Nat := 330
-def «Router.debugTrace» : Nat := 331
-def «Router.event» : Nat := 332
-def «Router.getAllSamplerRules» : Nat := 333
-def «Router.getConfigMetadata» : Nat := 334
-def «Router.getEnvironmentName» : Nat := 335
-def «Router.getKeyID» : Nat := 336
-def «Router.getSamplerRules» : Nat := 337
-def «Router.handleOTLPFailureResponse» : Nat := 338
-def «Router.handlerReturnWithError» : Nat := 339
-def «Router.lookupEnvironment» : Nat := 340
-def «Router.marshalToFormat» : Nat := 341
-def «Router.panic» : Nat := 342
-def «Router.panicCatcher» : Nat := 343
-def «Router.panicCatcher$1» : Nat := 344
-def «Router.panicCatcher$2» : Nat := 345
-def «Router.postOTLPLogs» : Nat := 346
-def «Router.postOTLPTrace» : Nat := 347
-def «Router.processEvent» : Nat := 348
-def «Router.processOTLPRequest» : Nat := 349
-def «Router.processOTLPRequestBatchMsgp» : Nat := 350
-def «Router.processOTLPRequestWithMsgp» : Nat := 351
-def «Router.proxy» : Nat := 352
-def «Router.queryTokenChecker» : Nat := 353
-def «Router.queryTokenChecker$1» : Nat := 354
-def «Router.readAndCloseMaybeCompressedBody» : Nat := 355
-def «Router.readBodyToBuffer» : Nat := 356
-def «Router.readGzipBody» : Nat := 357
-def «Router.readUncompressedBody» : Nat := 358
-def «Router.readZstdBody» : Nat := 359
-def «Router.ready» : Nat := 360
-def «Router.registerMetricNames» : Nat := 361
-def «Router.requestLogger» : Nat := 362
-def «Router.requestLogger$1» : Nat := 363
-def «Router.requestToEvent» : Nat := 364
-def «Router.setResponseHeaders» : Nat := 365
-def «Router.setResponseHeaders$1» : Nat := 366
-def «Router.startGRPCHealthMonitor» : Nat := 367
-def «Router.startGRPCHealthMonitor$1» : Nat := 368
-def «Router.startGRPCHealthMonitor$2» : Nat := 369
-def «Router.version» : Nat := 370
-def «RulesBasedDownstreamSampler.GetSamplingFields» : Nat := 371
-def «RulesBasedDownstreamSampler.NameMeaningfulRate» : Nat := 372
-def «RulesBasedSampler.GetKeyFields» : Nat := 373
-def «RulesBasedSampler.GetSampleRate» : Nat := 374
-def «RulesBasedSampler.Start» : Nat := 375
-def «RulesBasedSampler.Start$1» : Nat := 376
-def «RulesBasedSamplerCondition.GetComputedField» : Nat := 377
-def «RulesBasedSamplerCondition.Init» : Nat := 378
-def «RulesBasedSamplerCondition.Init$1» : Nat := 379
-def «RulesBasedSamplerCondition.String» : Nat := 380
-def «RulesBasedSamplerCondition.setMatchesFunction» : Nat := 381
-def «RulesBasedSamplerCondition.setMatchesFunction$1» : Nat := 382
-def «RulesBasedSamplerCondition.setMatchesFunction$2» : Nat := 383
-def «RulesBasedSamplerConfig.GetSamplingFields» : Nat := 384
-def «RulesBasedSamplerConfig.String» : Nat := 385
-def «RulesBasedSamplerRule.String» : Nat := 386
-def «SampleCacheConfig.GetDroppedSizePerWorker» : Nat := 387
-def «SampleCacheConfig.GetKeptSizePerWorker» : Nat := 388
-def «SamplerFactory.ClearDynsamplers» : Nat := 389
-def «SamplerFactory.GetDownstreamSampler» : Nat := 390
-def «SamplerFactory.GetSamplerImplementationForKey» : Nat := 391
-def «SamplerFactory.Start» : Nat := 392
-def «SamplerFactory.Stop» : Nat := 393
-def «SamplerFactory.createSampler» : Nat := 394
-def «SamplerFactory.updatePeerCounts» : Nat := 395
-def «SerializeToYAML» : Nat := 396
-def «StressRelief.GetSampleRate» : Nat := 397
-def «StressRelief.Recalc» : Nat := 398
-def «StressRelief.Start» : Nat := 399
-def «StressRelief.Start$1» : Nat := 400
-def «StressRelief.Start$2» : Nat := 401
-def «StressRelief.Stressed» : Nat := 402
-def «StressRelief.UpdateFromConfig» : Nat := 403
-def «StressRelief.clusterStressLevel» : Nat := 404
-def «StressRelief.linear» : Nat := 405
-def «StressRelief.onStressLevelUpdate» : Nat := 406
-def «StressRelief.ratio» : Nat := 407
-def «StressRelief.sigmoid» : Nat := 408
-def «StressRelief.sqrt» : Nat := 409
-def «StressRelief.square» : Nat := 410
-def «TotalThroughputSampler.GetKeyFields» : Nat := 411
-def «TotalThroughputSampler.GetSampleRate» : Nat := 412
-def «TotalThroughputSampler.Start» : Nat := 413
-def «TotalThroughputSampler.Start$1» : Nat := 414
-def «TotalThroughputSamplerConfig.GetSamplingFields» : Nat := 415
-def «TraceServer.ExportTraceData» : Nat := 416
-def «TracesConfig.GetBatchTimeout» : Nat := 417
-def «TracesConfig.GetMaxBatchSize» : Nat := 418
-def «TracesConfig.GetMaxExpiredTraces» : Nat := 419
-def «TracesConfig.GetSendDelay» : Nat := 420
-def «TracesConfig.GetSendTickerValue» : Nat := 421
-def «TracesConfig.GetTraceTimeout» : Nat := 422
-def «TryConvertToBool» : Nat := 423
-def «V2SamplerChoice.GetSamplingFields» : Nat := 424
-def «V2SamplerChoice.NameMeaningfulSamplers» : Nat := 425
-def «V2SamplerChoice.Sampler» : Nat := 426
-def «V2SamplerConfig.check» : Nat := 427
-def «Validation.GetArgAsStringSlice» : Nat := 428
-def «ValidationResult.IsError» : Nat := 429
-def «ValidationResult.isEmpty» : Nat := 430
-def «ValidationResults.HasErrors» : Nat := 431
-def «WindowedThroughputSampler.GetKeyFields» : Nat := 432
-def «WindowedThroughputSampler.GetSampleRate» : Nat := 433
-def «WindowedThroughputSampler.Start» : Nat := 434
-def «WindowedThroughputSampler.Start$1» : Nat := 435
-def «WindowedThroughputSamplerConfig.GetSamplingFields» : Nat := 436
-def «WithConfigData» : Nat := 437
-def «WithConfigData$1» : Nat := 438
-def «WithRulesData» : Nat := 439
-def «WithRulesData$1» : Nat := 440
-def «addIncomingUserAgent» : Nat := 441
-def «applyCmdEnvTags» : Nat := 442
-def «applyConfigInto» : Nat := 443
-def «asFloat» : Nat := 444
-def «batchedEvent.MarshalMsg» : Nat := 445
-def «batchedEvent.UnmarshalMsg» : Nat := 446
-def «batchedEvent.getEventTime» : Nat := 447
-def «batchedEvent.getSampleRate» : Nat := 448
-def «batchedEvents.MarshalJSON» : Nat := 449
-def «batchedEvents.UnmarshalJSON» : Nat := 450
-def «batchedEvents.UnmarshalMsg» : Nat := 451
-def «batchedEvents.unmarshalBatchedEventFromFastJSON» : Nat := 452
-def «batchedEvents.unmarshalBatchedEventFromFastJSON$1» : Nat := 453
-def «batchedEvents.unmarshalBatchedEventFromFastJSON$2» : Nat := 454
-def «buildRequestURL» : Nat := 455
-def «checkForDeprecation» : Nat := 456
-def «clamp» : Nat := 457
-def «compare» : Nat := 458
-def «compareVersions» : Nat := 459
-def «conditionMatchesValue» : Nat := 460
-def «convertToString» : Nat := 461
-def «createDynForDynamicSampler» : Nat := 462
-def «createDynForEMADynamicSampler» : Nat := 463
-def «createDynForEMAThroughputSampler» : Nat := 464
-def «createDynForTotalThroughputSampler» : Nat := 465
-def «createDynForWindowedThroughputSampler» : Nat := 466
-def «cuckooDroppedRecord.Count» : Nat := 467
-def «cuckooDroppedRecord.DescendantCount» : Nat := 468
-def «cuckooDroppedRecord.Kept» : Nat := 469
-def «cuckooDroppedRecord.Rate» : Nat := 470
-def «cuckooDroppedRecord.Reason» : Nat := 471
-def «cuckooDroppedRecord.SpanCount» : Nat := 472
-def «cuckooDroppedRecord.SpanEventCount» : Nat := 473
-def «cuckooDroppedRecord.SpanLinkCount» : Nat := 474
-def «cuckooSentCache.CheckSpan» : Nat := 475
-def «cuckooSentCache.CheckTrace» : Nat := 476
-def «cuckooSentCache.Record» : Nat := 477
-def «cuckooSentCache.Resize» : Nat := 478
-def «cuckooSentCache.Stop» : Nat := 479
-def «cuckooSentCache.monitor» : Nat := 480
-def «customTraceExportHandler» : Nat := 481
-def «customTraceExportHandler$1» : Nat := 482
-def «distinctValue.AddAsString» : Nat := 483
-def «distinctValue.Reset» : Nat := 484
-def «distinctValue.Values» : Nat := 485
-def «dynsamplerMetricsRecorder.RecordMetrics» : Nat := 486
-def «dynsamplerMetricsRecorder.RegisterMetrics» : Nat := 487
-def «envGetterFunc» : Nat := 488
-def «environmentCache.addItem» : Nat := 489
-def «environmentCache.get» : Nat := 490
-def «expandEnvVarsInConfig» : Nat := 491
-def «expandEnvVarsInString» : Nat := 492
-def «expandEnvVarsInString$1» : Nat := 493
-def «expandEnvVarsInValues» : Nat := 494
-def «extractValueFromSpan» : Nat := 495
-def «fileConfig.DetermineSamplerKey» : Nat := 496
-def «fileConfig.GetAccessKeyConfig» : Nat := 497
-def «fileConfig.GetAddCountsToRoot» : Nat := 498
-def «fileConfig.GetAddHostMetadataToTrace» : Nat := 499
-def «fileConfig.GetAddRuleReasonToTrace» : Nat := 500
-def «fileConfig.GetAddSpanCountToRoot» : Nat := 501
-def «fileConfig.GetAdditionalAttributes» : Nat := 502
-def «fileConfig.GetAdditionalErrorFields» : Nat := 503
-def «fileConfig.GetAdditionalHeaders» : Nat := 504
-def «fileConfig.GetAllSamplerRules» : Nat := 505
-def «fileConfig.GetCollectionConfig» : Nat := 506
-def «fileConfig.GetCompressPeerCommunication» : Nat := 507
-def «fileConfig.GetConfigMetadata» : Nat := 508
-def «fileConfig.GetDatasetPrefix» : Nat := 509
-def «fileConfig.GetDebugServiceAddr» : Nat := 510
-def «fileConfig.GetEnvironmentCacheTTL» : Nat := 511
-def «fileConfig.GetGRPCConfig» : Nat := 512
-def «fileConfig.GetGRPCEnabled» : Nat := 513
-def «fileConfig.GetGRPCListenAddr» : Nat := 514
-def «fileConfig.GetGeneralConfig» : Nat := 515
-def «fileConfig.GetHTTPIdleTimeout» : Nat := 516
-def «fileConfig.GetHashes» : Nat := 517
-def «fileConfig.GetHealthCheckTimeout» : Nat := 518
-def «fileConfig.GetHoneycombAPI» : Nat := 519
-def «fileConfig.GetHoneycombLoggerConfig» : Nat := 520
-def «fileConfig.GetIdentifierInterfaceName» : Nat := 521
-def «fileConfig.GetIsDryRun» : Nat := 522
-def «fileConfig.GetListenAddr» : Nat := 523
-def «fileConfig.GetLoggerLevel» : Nat := 524
-def «fileConfig.GetLoggerType» : Nat := 525
-def «fileConfig.GetOTelMetricsConfig» : Nat := 526
-def «fileConfig.GetOTelTracingConfig» : Nat := 527
-def «fileConfig.GetOpAMPConfig» : Nat := 528
-def «fileConfig.GetParentIdFieldNames» : Nat := 529
-def «fileConfig.GetPeerListenAddr» : Nat := 530
-def «fileConfig.GetPeerManagementType» : Nat := 531
-def «fileConfig.GetPeerTimeout» : Nat := 532
-def «fileConfig.GetPeers» : Nat := 533
-def «fileConfig.GetPrometheusMetricsConfig» : Nat := 534
-def «fileConfig.GetQueryAuthToken» : Nat := 535
-def «fileConfig.GetRedisAuthCode» : Nat := 536
-def «fileConfig.GetRedisClusterHosts» : Nat := 537
-def «fileConfig.GetRedisDatabase» : Nat := 538
-def «fileConfig.GetRedisHost» : Nat := 539
-def «fileConfig.GetRedisIdentifier» : Nat := 540
-def «fileConfig.GetRedisPassword» : Nat := 541
-def «fileConfig.GetRedisPeerManagement» : Nat := 542
-def «fileConfig.GetRedisPrefix» : Nat := 543
-def «fileConfig.GetRedisUsername» : Nat := 544
-def «fileConfig.GetSampleCacheConfig» : Nat := 545
-def «fileConfig.GetSamplerConfigForDestName» : Nat := 546
-def «fileConfig.GetSamplingKeyFieldsForDestName» : Nat := 547
-def «fileConfig.GetStdoutLoggerConfig» : Nat := 548
-def «fileConfig.GetStressReliefConfig» : Nat := 549
-def «fileConfig.GetTraceIdFieldNames» : Nat := 550
-def «fileConfig.GetTracesConfig» : Nat := 551
-def «fileConfig.GetUseIPV6Identifier» : Nat := 552
-def «fileConfig.GetUseTLS» : Nat := 553
-def «fileConfig.GetUseTLSInsecure» : Nat := 554
-def «fileConfig.RegisterReloadCallback» : Nat := 555
-def «fileConfig.Reload» : Nat := 556
-def «flatten» : Nat := 557
-def «formatFromFilename» : Nat := 558
-def «formatFromResponse» : Nat := 559
-def «getAPIKeyAndDatasetFromMetadata» : Nat := 560
-def «getBytesFor» : Nat := 561
-def «getConfigDataForLocations» : Nat := 562
-def «getDatasetFromRequest» : Nat := 563
-def «getDefaultTrueValue» : Nat := 564
-def «getEventTime» : Nat := 565
-def «getFirstValueFromMetadata» : Nat := 566
-def «getIdentifierFromInterface» : Nat := 567
-def «getMetricType» : Nat := 568
-def «getPeerManagementConfig» : Nat := 569
-def «getRefineryTelemetryConfig» : Nat := 570
-def «getSharedDynsamplerAndRecorder» : Nat := 571
-def «getUserAgentFromRequest» : Nat := 572
-def «hashList» : Nat := 573
-def «init» : Nat := 574
-def «iopLogger.Debug» : Nat := 575
-def «iopLogger.Error» : Nat := 576
-def «iopLogger.Info» : Nat := 577
-def «isString» : Nat := 578
-def «isVersionDeprecated» : Nat := 579
-def «keptTraceCacheEntry.Count» : Nat := 580
-def «keptTraceCacheEntry.DescendantCount» : Nat := 581
-def «keptTraceCacheEntry.Kept» : Nat := 582
-def «keptTraceCacheEntry.Rate» : Nat := 583
-def «keptTraceCacheEntry.SpanCount» : Nat := 584
-def «keptTraceCacheEntry.SpanEventCount» : Nat := 585
-def «keptTraceCacheEntry.SpanLinkCount» : Nat := 586
-def «load» : Nat := 587
-def «loadConfigsInto» : Nat := 588
-def «loadConfigsIntoMap» : Nat := 589
-def «loadNamedMetadata» : Nat := 590
-def «makeDecoders» : Nat := 591
-def «makeDynsamplerKey» : Nat := 592
-def «maskString» : Nat := 593
-def «mergeTraceAndSpanSampleRates» : Nat := 594
-def «mustFloat» : Nat := 595
-def «newBatchedEvents» : Nat := 596
-def «newConfigAndRules» : Nat := 597
-def «newEnvironmentCache» : Nat := 598
-def «newFileConfig» : Nat := 599
-def «newPeerCommand» : Nat := 600
-def «newSamplerMetricNames» : Nat := 601
-def «newStressReliefMessage» : Nat := 602
-def «newTraceKey» : Nat := 603
-def «parseFractionalEpoch» : Nat := 604
-def «peerCommand.marshal» : Nat := 605
-def «peerCommand.unmarshal» : Nat := 606
-def «populateConfigContents» : Nat := 607
-def «publicAddr» : Nat := 608
-def «randStringBytes» : Nat := 609
-def «recycleHTTPBodyBuffer» : Nat := 610
-def «registerCustomTraceService» : Nat := 611
-def «ruleMatchesSpanInTrace» : Nat := 612
-def «ruleMatchesTrace» : Nat := 613
-def «selectIPFromAddrs» : Nat := 614
-def «setCompareOperators» : Nat := 615
-def «setCompareOperators$1» : Nat := 616
-def «setCompareOperators$10» : Nat := 617
-def «setCompareOperators$11» : Nat := 618
-def «setCompareOperators$12» : Nat := 619
-def «setCompareOperators$13» : Nat := 620
-def «setCompareOperators$14» : Nat := 621
-def «setCompareOperators$15» : Nat := 622
-def «setCompareOperators$16» : Nat := 623
-def «setCompareOperators$17» : Nat := 624
-def «setCompareOperators$18» : Nat := 625
-def «setCompareOperators$19» : Nat := 626
-def «setCompareOperators$2» : Nat := 627
-def «setCompareOperators$20» : Nat := 628
-def «setCompareOperators$3» : Nat := 629
-def «setCompareOperators$4» : Nat := 630
-def «setCompareOperators$5» : Nat := 631
-def «setCompareOperators$6» : Nat := 632
-def «setCompareOperators$7» : Nat := 633
-def «setCompareOperators$8» : Nat := 634
-def «setCompareOperators$9» : Nat := 635
-def «setInBasedOperators» : Nat := 636
-def «setInBasedOperators$1» : Nat := 637
-def «setInBasedOperators$2» : Nat := 638
-def «setInBasedOperators$3» : Nat := 639
-def «setInBasedOperators$4» : Nat := 640
-def «setMatchStringBasedOperators» : Nat := 641
-def «setMatchStringBasedOperators$1» : Nat := 642
-def «setMatchStringBasedOperators$2» : Nat := 643
-def «setMatchStringBasedOperators$3» : Nat := 644
-def «setRegexStringMatchOperator» : Nat := 645
-def «setRegexStringMatchOperator$1» : Nat := 646
-def «statusRecorder.WriteHeader» : Nat := 647
-def «stressReliefMessage.String» : Nat := 648
-def «traceKey.build» : Nat := 649
-def «translatedTraceServiceRequest.ProtoMessage» : Nat := 650
-def «translatedTraceServiceRequest.Reset» : Nat := 651
-def «translatedTraceServiceRequest.String» : Nat := 652
-def «translatedTraceServiceRequest.Unmarshal» : Nat := 653
-def «tryConvertToFloat» : Nat := 654
-def «tryConvertToInt» : Nat := 655
-def «unmarshal» : Nat := 656
-def «unmarshalStressReliefMessage» : Nat := 657
-def «validateConfigs» : Nat := 658
-def «validateDatatype» : Nat := 659
-def «validateRules» : Nat := 660
-def «writeYAMLToFile» : Nat := 661
+def «DeterministicSharder.MyShard» : Nat := 63
+def «DeterministicSharder.Start» : Nat := 64
+def «DeterministicSharder.Start$1» : Nat := 65
+def «DeterministicSharder.Start$2» : Nat := 66
+def «DeterministicSharder.Start@shared» : Nat := 67
+def «DeterministicSharder.WhichShard» : Nat := 68
+def «DeterministicSharder.currentPeers» : Nat := 69
+def «DeterministicSharder.loadPeerList» : Nat := 70
+def «DeterministicSharder.loadPeerList$1» : Nat := 71
+def «DirectTransmission.EnqueueEvent» : Nat := 72
+def «DirectTransmission.EnqueueEvent$1» : Nat := 73
+def «DirectTransmission.EnqueueSpan» : Nat := 74
+def «DirectTransmission.Start» : Nat := 75
+def «DirectTransmission.Stop» : Nat := 76
+def «DirectTransmission.Stop$1» : Nat := 77
+def «DirectTransmission.dispatchStaleBatches» : Nat := 78
+def «DirectTransmission.dispatchStaleBatches$1» : Nat := 79
+def «DirectTransmission.handleBatchFailure» : Nat := 80
+def «DirectTransmission.handleError» : Nat := 81
+def «DirectTransmission.handleEventError» : Nat := 82
+def «DirectTransmission.registerMetrics» : Nat := 83
+def «DirectTransmission.sendBatch» : Nat := 84
+def «Duration.MarshalText» : Nat := 85
+def «Duration.UnmarshalText» : Nat := 86
+def «DynamicSampler.GetKeyFields» : Nat := 87
+def «DynamicSampler.GetSampleRate» : Nat := 88
+def «DynamicSampler.Start» : Nat := 89
+def «DynamicSampler.Start$1» : Nat := 90
+def «DynamicSamplerConfig.GetSamplingFields» : Nat := 91
+def «EMADynamicSampler.GetKeyFields» : Nat := 92
+def «EMADynamicSampler.GetSampleRate» : Nat := 93
+def «EMADynamicSampler.Start» : Nat := 94
+def «EMADynamicSampler.Start$1» : Nat := 95
+def «EMADynamicSamplerConfig.GetSamplingFields» : Nat := 96
+def «EMAThroughputSampler.GetKeyFields» : Nat := 97
+def «EMAThroughputSampler.GetSampleRate» : Nat := 98
+def «EMAThroughputSampler.Start» : Nat := 99
+def «EMAThroughputSampler.Start$1» : Nat := 100
+def «EMAThroughputSamplerConfig.GetSamplingFields» : Nat := 101
+def «FileConfigError.Error» : Nat := 102
+def «FileConfigError.HasErrors» : Nat := 103
+def «FilePeers.GetInstanceID» : Nat := 104
+def «FilePeers.GetPeers» : Nat := 105
+def «FilePeers.Ready» : Nat := 106
+def «FilePeers.RegisterUpdatedPeersCallback» : Nat := 107
+def «FilePeers.Start» : Nat := 108
+def «FilePeers.Start$1» : Nat := 109
+def «GetCollectorImplementation» : Nat := 110
+def «GetKeyFields» : Nat := 111
+def «GetMetricsImplementation» : Nat := 112
+def «GetSharderImplementation» : Nat := 113
+def «Group.GetDeprecationVersion» : Nat := 114
+def «Group.IsDeprecated» : Nat := 115
+def «HoneycombLoggerConfig.GetSamplerEnabled» : Nat := 116
+def «InMemCollector.AddSpan» : Nat := 117
+def «InMemCollector.AddSpanFromPeer» : Nat := 118
+def «InMemCollector.GetStressedSampleRate» : Nat := 119
+def «InMemCollector.IsMyTrace» : Nat := 120
+def «InMemCollector.ProcessSpanImmediately» : Nat := 121
+def «InMemCollector.Start» : Nat := 122
+def «InMemCollector.Start$1» : Nat := 123
+def «InMemCollector.Stop» : Nat := 124
+def «InMemCollector.Stressed» : Nat := 125
+def «InMemCollector.addAdditionalAttributes» : Nat := 126
+def «InMemCollector.checkAlloc» : Nat := 127
+def «InMemCollector.dealWithSentTrace» : Nat := 128
+def «InMemCollector.getWorkerIDForTrace» : Nat := 129
+def «InMemCollector.isReady» : Nat := 130
+def «InMemCollector.monitor» : Nat := 131
+def «InMemCollector.reloadConfigs» : Nat := 132
+def «InMemCollector.send» : Nat := 133
+def «InMemCollector.sendReloadSignal» : Nat := 134
+def «InMemCollector.sendTraces» : Nat := 135
+def «IsLegacyAPIKey» : Nat := 136
+def «KeptReasonsCache.Get» : Nat := 137
+def «KeptReasonsCache.Set» : Nat := 138
+def «Level.MarshalText» : Nat := 139
+def «Level.String» : Nat := 140
+def «Level.UnmarshalText» : Nat := 141
+def «LoadConfigMetadata» : Nat := 142
+def «LoadRulesMetadata» : Nat := 143
+def «LogsServer.Export» : Nat := 144
+def «MemorySize.MarshalText» : Nat := 145
+def «MemorySize.UnmarshalFlag» : Nat := 146
+def «MemorySize.UnmarshalText» : Nat := 147
+def «Metadata.ClosestNamesTo» : Nat := 148
+def «Metadata.ClosestNamesTo$1» : Nat := 149
+def «Metadata.GetField» : Nat := 150
+def «Metadata.GetGroup» : Nat := 151
+def «Metadata.LoadFrom» : Nat := 152
+def «Metadata.Validate» : Nat := 153
+def «Metadata.ValidateRules» : Nat := 154
+def «MetricType.String» : Nat := 155
+def «MockCollector.AddSpan» : Nat := 156
+def «MockCollector.AddSpanFromPeer» : Nat := 157
+def «MockCollector.Flush» : Nat := 158
+def «MockCollector.GetStressedSampleRate» : Nat := 159
+def «MockCollector.ProcessSpanImmediately» : Nat := 160
+def «MockCollector.Stressed» : Nat := 161
+def «MockConfig.DetermineSamplerKey» : Nat := 162
+def «MockConfig.GetAccessKeyConfig» : Nat := 163
+def «MockConfig.GetAddCountsToRoot» : Nat := 164
+def «MockConfig.GetAddHostMetadataToTrace» : Nat := 165
+def «MockConfig.GetAddRuleReasonToTrace» : Nat := 166
+def «MockConfig.GetAddSpanCountToRoot» : Nat := 167
+def «MockConfig.GetAdditionalAttributes» : Nat := 168
+def «MockConfig.GetAdditionalErrorFields» : Nat := 169
+def «MockConfig.GetAdditionalHeaders» : Nat := 170
+def «MockConfig.GetAllSamplerRules» : Nat := 171
+def «MockConfig.GetCollectionConfig» : Nat := 172
+def «MockConfig.GetCollectorType» : Nat := 173
+def «MockConfig.GetCompressPeerCommunication» : Nat := 174
+def «MockConfig.GetConfigMetadata» : Nat := 175
+def «MockConfig.GetDatasetPrefix» : Nat := 176
+def «MockConfig.GetDebugServiceAddr» : Nat := 177
+def «MockConfig.GetEnvironmentCacheTTL» : Nat := 178
+def «MockConfig.GetGRPCConfig» : Nat := 179
+def «MockConfig.GetGRPCEnabled» : Nat := 180
+def «MockConfig.GetGRPCListenAddr» : Nat := 181
+def «MockConfig.GetGeneralConfig» : Nat := 182
+def «MockConfig.GetHTTPIdleTimeout» : Nat := 183
+def «MockConfig.GetHashes» : Nat := 184
+def «MockConfig.GetHealthCheckTimeout» : Nat := 185
+def «MockConfig.GetHoneycombAPI» : Nat := 186
+def «MockConfig.GetHoneycombLoggerConfig» : Nat := 187
+def «MockConfig.GetIdentifierInterfaceName» : Nat := 188
+def «MockConfig.GetIsDryRun» : Nat := 189
+def «MockConfig.GetListenAddr» : Nat := 190
+def «MockConfig.GetLoggerLevel» : Nat := 191
+def «MockConfig.GetLoggerType» : Nat := 192
+def «MockConfig.GetOTelMetricsConfig» : Nat := 193
+def «MockConfig.GetOTelTracingConfig» : Nat := 194
+def «MockConfig.GetOpAMPConfig» : Nat := 195
+def «MockConfig.GetParentIdFieldNames» : Nat := 196
+def «MockConfig.GetPeerListenAddr» : Nat := 197
+def «MockConfig.GetPeerManagementType» : Nat := 198
+def «MockConfig.GetPeerTimeout» : Nat := 199
+def «MockConfig.GetPeers» : Nat := 200
+def «MockConfig.GetPrometheusMetricsConfig» : Nat := 201
+def «MockConfig.GetQueryAuthToken» : Nat := 202
+def «MockConfig.GetRedisIdentifier» : Nat := 203
+def «MockConfig.GetRedisPeerManagement» : Nat := 204
+def «MockConfig.GetSampleCacheConfig» : Nat := 205
+def «MockConfig.GetSamplerConfigForDestName» : Nat := 206
+def «MockConfig.GetSamplingKeyFieldsForDestName» : Nat := 207
+def «MockConfig.GetStdoutLoggerConfig» : Nat := 208
+def «MockConfig.GetStressReliefConfig» : Nat := 209
+def «MockConfig.GetTraceIdFieldNames» : Nat := 210
+def «MockConfig.GetTracesConfig» : Nat := 211
+def «MockConfig.GetUseIPV6Identifier» : Nat := 212
+def «MockConfig.RegisterReloadCallback» : Nat := 213
+def «MockConfig.Reload» : Nat := 214
+def «MockConfig.SetMaxAlloc» : Nat := 215
+def «MockGRPCHealthWatchServer.GetSentMessages» : Nat := 216
+def «MockGRPCHealthWatchServer.Send» : Nat := 217
+def «MockMetrics.Count» : Nat := 218
+def «MockMetrics.Down» : Nat := 219
+def «MockMetrics.Gauge» : Nat := 220
+def «MockMetrics.Get» : Nat := 221
+def «MockMetrics.GetHistogramCount» : Nat := 222
+def «MockMetrics.Histogram» : Nat := 223
+def «MockMetrics.Increment» : Nat := 224
+def «MockMetrics.Register» : Nat := 225
+def «MockMetrics.Start» : Nat := 226
+def «MockMetrics.Stop» : Nat := 227
+def «MockMetrics.Store» : Nat := 228
+def «MockMetrics.Up» : Nat := 229
+def «MockPeers.GetInstanceID» : Nat := 230
+def «MockPeers.GetPeers» : Nat := 231
+def «MockPeers.Ready» : Nat := 232
+def «MockPeers.RegisterUpdatedPeersCallback» : Nat := 233
+def «MockPeers.Start» : Nat := 234
+def «MockPeers.UpdatePeers» : Nat := 235
+def «MockSharder.MyShard» : Nat := 236
+def «MockSharder.WhichShard» : Nat := 237
+def «MockStressReliever.GetSampleRate» : Nat := 238
+def «MockStressReliever.Recalc» : Nat := 239
+def «MockStressReliever.ShouldSampleDeterministically» : Nat := 240
+def «MockStressReliever.Start» : Nat := 241
+def «MockStressReliever.Stressed» : Nat := 242
+def «MockStressReliever.UpdateFromConfig» : Nat := 243
+def «MockTransmission.EnqueueEvent» : Nat := 244
+def «MockTransmission.EnqueueSpan» : Nat := 245
+def «MockTransmission.GetBlock» : Nat := 246
+def «MockTransmission.RegisterMetrics» : Nat := 247
+def «MockTransmission.Start» : Nat := 248
+def «MockTransmission.Stop» : Nat := 249
+def «MultiMetrics.AddChild» : Nat := 250
+def «MultiMetrics.Children» : Nat := 251
+def «MultiMetrics.Count» : Nat := 252
+def «MultiMetrics.Down» : Nat := 253
+def «MultiMetrics.Gauge» : Nat := 254
+def «MultiMetrics.Get» : Nat := 255
+def «MultiMetrics.Histogram» : Nat := 256
+def «MultiMetrics.Increment» : Nat := 257
+def «MultiMetrics.Register» : Nat := 258
+def «MultiMetrics.Start» : Nat := 259
+def «MultiMetrics.Store» : Nat := 260
+def «MultiMetrics.Up» : Nat := 261
+def «NewCmdEnvOptions» : Nat := 262
+def «NewCollectorWorker» : Nat := 263
+def «NewConfig» : Nat := 264
+def «NewConfigData» : Nat := 265
+def «NewCuckooSentCache» : Nat := 266
+def «NewCuckooTraceChecker» : Nat := 267
+def «NewCuckooTraceChecker$1» : Nat := 268
+def «NewDefaultTransmission» : Nat := 269
+def «NewDirectTransmission» : Nat := 270
+def «NewInMemCache» : Nat := 271
+def «NewInMemCache$1» : Nat := 272
+def «NewInMemCache$2» : Nat := 273
+def «NewKeptReasonsCache» : Nat := 274
+def «NewKeptTraceCacheEntry» : Nat := 275
+def «NewLogsServer» : Nat := 276
+def «NewMockCollector» : Nat := 277
+def «NewMockPeers» : Nat := 278
+def «NewMultiMetrics» : Nat := 279
+def «NewTraceServer» : Nat := 280
+def «NullMetrics.Count» : Nat := 281
+def «NullMetrics.Down» : Nat := 282
+def «NullMetrics.Gauge» : Nat := 283
+def «NullMetrics.Get» : Nat := 284
+def «NullMetrics.Histogram» : Nat := 285
+def «NullMetrics.Increment» : Nat := 286
+def «NullMetrics.Register» : Nat := 287
+def «NullMetrics.Start» : Nat := 288
+def «NullMetrics.Stop» : Nat := 289
+def «NullMetrics.Store» : Nat := 290
+def «NullMetrics.Up» : Nat := 291
+def «OTelMetrics.Count» : Nat := 292
+def «OTelMetrics.Down» : Nat := 293
+def «OTelMetrics.Gauge» : Nat := 294
+def «OTelMetrics.Histogram» : Nat := 295
+def «OTelMetrics.Increment» : Nat := 296
+def «OTelMetrics.Register» : Nat := 297
+def «OTelMetrics.Start» : Nat := 298
+def «OTelMetrics.Start$1» : Nat := 299
+def «OTelMetrics.Start$2» : Nat := 300
+def «OTelMetrics.Start$3» : Nat := 301
+def «OTelMetrics.Start$4» : Nat := 302
+def «OTelMetrics.Stop» : Nat := 303
+def «OTelMetrics.Up» : Nat := 304
+def «OTelMetrics.getOrInitCounter» : Nat := 305
+def «OTelMetrics.getOrInitGauge» : Nat := 306
+def «OTelMetrics.getOrInitHistogram» : Nat := 307
+def «OTelMetrics.getOrInitUpDown» : Nat := 308
+def «ParseLevel» : Nat := 309
+def «PrefixMetricName» : Nat := 310
+def «PromMetrics.Count» : Nat := 311
+def «PromMetrics.Down» : Nat := 312
+def «PromMetrics.Gauge» : Nat := 313
+def «PromMetrics.Histogram» : Nat := 314
+def «PromMetrics.Increment» : Nat := 315
+def «PromMetrics.Register» : Nat := 316
+def «PromMetrics.Start» : Nat := 317
+def «PromMetrics.Start$1» : Nat := 318
+def «PromMetrics.Up» : Nat := 319
+def «RedisPubsubPeers.GetInstanceID» : Nat := 320
+def «RedisPubsubPeers.GetPeers» : Nat := 321
+def «RedisPubsubPeers.Ready» : Nat := 322
+def «RedisPubsubPeers.Ready$1» : Nat := 323
+def «RedisPubsubPeers.RegisterUpdatedPeersCallback» : Nat := 324
+def «RedisPubsubPeers.Start» : Nat := 325
+def «RedisPubsubPeers.checkHash» : Nat := 326
+def «RedisPubsubPeers.listen» : Nat := 327
+def «RedisPubsubPeers.stop» : Nat := 328
+def «Router.AddOTLPMuxxer» : Nat := 329
+def «Router.Check» : Nat := 330
+def «Router.LnS» : Nat := 331
+def «Router.LnS$1» : Nat := 332
+def «Router.SetEnvironmentCache» : Nat := 333
+def «Router.SetEnvironmentCache$1» : Nat := 334
+def «Router.SetType» : Nat := 335
+def «Router.SetVersion» : Nat := 336
+def «Router.Stop» : Nat := 337
+def «Router.Watch» : Nat := 338
+def «Router.alive» : Nat := 339
+def «Router.apiKeyProcessor» : Nat := 340
+def «Router.apiKeyProcessor$1» : Nat := 341
+def «Router.batch» : Nat := 342
+def «Router.debugTrace» : Nat := 343
+def «Router.event» : Nat := 344
+def «Router.getAllSamplerRules» : Nat := 345
+def «Router.getConfigMetadata» : Nat := 346
+def «Router.getEnvironmentName» : Nat := 347
+def «Router.getKeyID» : Nat := 348
+def «Router.getSamplerRules» : Nat := 349
+def «Router.handleOTLPFailureResponse» : Nat := 350
+def «Router.handlerReturnWithError» : Nat := 351
+def «Router.lookupEnvironment» : Nat := 352
+def «Router.marshalToFormat» : Nat := 353
+def «Router.panic» : Nat := 354
+def «Router.panicCatcher» : Nat := 355
+def «Router.panicCatcher$1» : Nat := 356
+def «Router.panicCatcher$2» : Nat := 357
+def «Router.postOTLPLogs» : Nat := 358
+def «Router.postOTLPTrace» : Nat := 359
+def «Router.processEvent» : Nat := 360
+def «Router.processOTLPRequest» : Nat := 361
+def «Router.processOTLPRequestBatchMsgp» : Nat := 362
+def «Router.processOTLPRequestWithMsgp» : Nat := 363
+def «Router.proxy» : Nat := 364
+def «Router.queryTokenChecker» : Nat := 365
+def «Router.queryTokenChecker$1» : Nat := 366
+def «Router.readAndCloseMaybeCompressedBody» : Nat := 367
+def «Router.readBodyToBuffer» : Nat := 368
+def «Router.readGzipBody» : Nat := 369
+def «Router.readUncompressedBody» : Nat := 370
+def «Router.readZstdBody» : Nat := 371
+def «Router.ready» : Nat := 372
+def «Router.registerMetricNames» : Nat := 373
+def «Router.requestLogger» : Nat := 374
+def «Router.requestLogger$1» : Nat := 375
+def «Router.requestToEvent» : Nat := 376
+def «Router.setResponseHeaders» : Nat := 377
+def «Router.setResponseHeaders$1» : Nat := 378
+def «Router.startGRPCHealthMonitor» : Nat := 379
+def «Router.startGRPCHealthMonitor$1» : Nat := 380
+def «Router.startGRPCHealthMonitor$2» : Nat := 381
+def «Router.version» : Nat := 382
+def «RulesBasedDownstreamSampler.GetSamplingFields» : Nat := 383
+def «RulesBasedDownstreamSampler.NameMeaningfulRate» : Nat := 384
+def «RulesBasedSampler.GetKeyFields» : Nat := 385
+def «RulesBasedSampler.GetSampleRate» : Nat := 386
+def «RulesBasedSampler.Start» : Nat := 387
+def «RulesBasedSampler.Start$1» : Nat := 388
+def «RulesBasedSamplerCondition.GetComputedField» : Nat := 389
+def «RulesBasedSamplerCondition.Init» : Nat := 390
+def «RulesBasedSamplerCondition.Init$1» : Nat := 391
+def «RulesBasedSamplerCondition.String» : Nat := 392
+def «RulesBasedSamplerCondition.setMatchesFunction» : Nat := 393
+def «RulesBasedSamplerCondition.setMatchesFunction$1» : Nat := 394
+def «RulesBasedSamplerCondition.setMatchesFunction$2» : Nat := 395
+def «RulesBasedSamplerConfig.GetSamplingFields» : Nat := 396
+def «RulesBasedSamplerConfig.String» : Nat := 397
+def «RulesBasedSamplerRule.String» : Nat := 398
+def «SampleCacheConfig.GetDroppedSizePerWorker» : Nat := 399
+def «SampleCacheConfig.GetKeptSizePerWorker» : Nat := 400
+def «SamplerFactory.ClearDynsamplers» : Nat := 401
+def «SamplerFactory.GetDownstreamSampler» : Nat := 402
+def «SamplerFactory.GetSamplerImplementationForKey» : Nat := 403
+def «SamplerFactory.Start» : Nat := 404
+def «SamplerFactory.Stop» : Nat := 405
+def «SamplerFactory.createSampler» : Nat := 406
+def «SamplerFactory.updatePeerCounts» : Nat := 407
+def «SerializeToYAML» : Nat := 408
+def «SingleServerSharder.MyShard» : Nat := 409
+def «SingleServerSharder.WhichShard» : Nat := 410
+def «SingleShard.Equals» : Nat := 411
+def «SingleShard.GetAddress» : Nat := 412
+def «SortableShardList.Equals» : Nat := 413
+def «SortableShardList.Len» : Nat := 414
+def «SortableShardList.Less» : Nat := 415
+def «SortableShardList.Swap» : Nat := 416
+def «StressRelief.GetSampleRate» : Nat := 417
+def «StressRelief.Recalc» : Nat := 418
+def «StressRelief.Start» : Nat := 419
+def «StressRelief.Start$1» : Nat := 420
+def «StressRelief.Start$2» : Nat := 421
+def «StressRelief.Stressed» : Nat := 422
+def «StressRelief.UpdateFromConfig» : Nat := 423
+def «StressRelief.clusterStressLevel» : Nat := 424
+def «StressRelief.linear» : Nat := 425
+def «StressRelief.onStressLevelUpdate» : Nat := 426
+def «StressRelief.ratio» : Nat := 427
+def «StressRelief.sigmoid» : Nat := 428
+def «StressRelief.sqrt» : Nat := 429
+def «StressRelief.square» : Nat := 430
+def «TestShard.Equals» : Nat := 431
+def «TestShard.GetAddress» : Nat := 432
+def «TotalThroughputSampler.GetKeyFields» : Nat := 433
+def «TotalThroughputSampler.GetSampleRate» : Nat := 434
+def «TotalThroughputSampler.Start» : Nat := 435
+def «TotalThroughputSampler.Start$1» : Nat := 436
+def «TotalThroughputSamplerConfig.GetSamplingFields» : Nat := 437
+def «TraceServer.ExportTraceData» : Nat := 438
+def «TracesConfig.GetBatchTimeout» : Nat := 439
+def «TracesConfig.GetMaxBatchSize» : Nat := 440
+def «TracesConfig.GetMaxExpiredTraces» : Nat := 441
+def «TracesConfig.GetSendDelay» : Nat := 442
+def «TracesConfig.GetSendTickerValue» : Nat := 443
+def «TracesConfig.GetTraceTimeout» : Nat := 444
+def «TryConvertToBool» : Nat := 445
+def «V2SamplerChoice.GetSamplingFields» : Nat := 446
+def «V2SamplerChoice.NameMeaningfulSamplers» : Nat := 447
+def «V2SamplerChoice.Sampler» : Nat := 448
+def «V2SamplerConfig.check» : Nat := 449
+def «Validation.GetArgAsStringSlice» : Nat := 450
+def «ValidationResult.IsError» : Nat := 451
+def «ValidationResult.isEmpty» : Nat := 452
+def «ValidationResults.HasErrors» : Nat := 453
+def «WindowedThroughputSampler.GetKeyFields» : Nat := 454
+def «WindowedThroughputSampler.GetSampleRate» : Nat := 455
+def «WindowedThroughputSampler.Start» : Nat := 456
+def «WindowedThroughputSampler.Start$1» : Nat := 457
+def «WindowedThroughputSamplerConfig.GetSamplingFields» : Nat := 458
+def «WithConfigData» : Nat := 459
+def «WithConfigData$1» : Nat := 460
+def «WithRulesData» : Nat := 461
+def «WithRulesData$1» : Nat := 462
+def «addIncomingUserAgent» : Nat := 463
+def «applyCmdEnvTags» : Nat := 464
+def «applyConfigInto» : Nat := 465
+def «asFloat» : Nat := 466
+def «batchedEvent.MarshalMsg» : Nat := 467
+def «batchedEvent.UnmarshalMsg» : Nat := 468
+def «batchedEvent.getEventTime» : Nat := 469
+def «batchedEvent.getSampleRate» : Nat := 470
+def «batchedEvents.MarshalJSON» : Nat := 471
+def «batchedEvents.UnmarshalJSON» : Nat := 472
+def «batchedEvents.UnmarshalMsg» : Nat := 473
+def «batchedEvents.unmarshalBatchedEventFromFastJSON» : Nat := 474
+def «batchedEvents.unmarshalBatchedEventFromFastJSON$1» : Nat := 475
+def «batchedEvents.unmarshalBatchedEventFromFastJSON$2» : Nat := 476
+def «buildRequestURL» : Nat := 477
+def «checkForDeprecation» : Nat := 478
+def «clamp» : Nat := 479
+def «compare» : Nat := 480
+def «compareVersions» : Nat := 481
+def «conditionMatchesValue» : Nat := 482
+def «convertToString» : Nat := 483
+def «createDynForDynamicSampler» : Nat := 484
+def «createDynForEMADynamicSampler» : Nat := 485
+def «createDynForEMAThroughputSampler» : Nat := 486
+def «createDynForTotalThroughputSampler» : Nat := 487
+def «createDynForWindowedThroughputSampler» : Nat := 488
+def «cuckooDroppedRecord.Count» : Nat := 489
+def «cuckooDroppedRecord.DescendantCount» : Nat := 490
+def «cuckooDroppedRecord.Kept» : Nat := 491
+def «cuckooDroppedRecord.Rate» : Nat := 492
+def «cuckooDroppedRecord.Reason» : Nat := 493
+def «cuckooDroppedRecord.SpanCount» : Nat := 494
+def «cuckooDroppedRecord.SpanEventCount» : Nat := 495
+def «cuckooDroppedRecord.SpanLinkCount» : Nat := 496
+def «cuckooSentCache.CheckSpan» : Nat := 497
+def «cuckooSentCache.CheckTrace» : Nat := 498
+def «cuckooSentCache.Record» : Nat := 499
+def «cuckooSentCache.Resize» : Nat := 500
+def «cuckooSentCache.Stop» : Nat := 501
+def «cuckooSentCache.monitor» : Nat := 502
+def «customTraceExportHandler» : Nat := 503
+def «customTraceExportHandler$1» : Nat := 504
+def «detShard.Equals» : Nat := 505
+def «detShard.GetAddress» : Nat := 506
+def «detShard.GetHashesFor» : Nat := 507
+def «distinctValue.AddAsString» : Nat := 508
+def «distinctValue.Reset» : Nat := 509
+def «distinctValue.Values» : Nat := 510
+def «dynsamplerMetricsRecorder.RecordMetrics» : Nat := 511
+def «dynsamplerMetricsRecorder.RegisterMetrics» : Nat := 512
+def «envGetterFunc» : Nat := 513
+def «environmentCache.addItem» : Nat := 514
+def «environmentCache.get» : Nat := 515
+def «expandEnvVarsInConfig» : Nat := 516
+def «expandEnvVarsInString» : Nat := 517
+def «expandEnvVarsInString$1» : Nat := 518
+def «expandEnvVarsInValues» : Nat := 519
+def «extractValueFromSpan» : Nat := 520
+def «fileConfig.DetermineSamplerKey» : Nat := 521
+def «fileConfig.GetAccessKeyConfig» : Nat := 522
+def «fileConfig.GetAddCountsToRoot» : Nat := 523
+def «fileConfig.GetAddHostMetadataToTrace» : Nat := 524
+def «fileConfig.GetAddRuleReasonToTrace» : Nat := 525
+def «fileConfig.GetAddSpanCountToRoot» : Nat := 526
+def «fileConfig.GetAdditionalAttributes» : Nat := 527
+def «fileConfig.GetAdditionalErrorFields» : Nat := 528
+def «fileConfig.GetAdditionalHeaders» : Nat := 529
+def «fileConfig.GetAllSamplerRules» : Nat := 530
+def «fileConfig.GetCollectionConfig» : Nat := 531
+def «fileConfig.GetCompressPeerCommunication» : Nat := 532
+def «fileConfig.GetConfigMetadata» : Nat := 533
+def «fileConfig.GetDatasetPrefix» : Nat := 534
+def «fileConfig.GetDebugServiceAddr» : Nat := 535
+def «fileConfig.GetEnvironmentCacheTTL» : Nat := 536
+def «fileConfig.GetGRPCConfig» : Nat := 537
+def «fileConfig.GetGRPCEnabled» : Nat := 538
+def «fileConfig.GetGRPCListenAddr» : Nat := 539
+def «fileConfig.GetGeneralConfig» : Nat := 540
+def «fileConfig.GetHTTPIdleTimeout» : Nat := 541
+def «fileConfig.GetHashes» : Nat := 542
+def «fileConfig.GetHealthCheckTimeout» : Nat := 543
+def «fileConfig.GetHoneycombAPI» : Nat := 544
+def «fileConfig.GetHoneycombLoggerConfig» : Nat := 545
+def «fileConfig.GetIdentifierInterfaceName» : Nat := 546
+def «fileConfig.GetIsDryRun» : Nat := 547
+def «fileConfig.GetListenAddr» : Nat := 548
+def «fileConfig.GetLoggerLevel» : Nat := 549
+def «fileConfig.GetLoggerType» : Nat := 550
+def «fileConfig.GetOTelMetricsConfig» : Nat := 551
+def «fileConfig.GetOTelTracingConfig» : Nat := 552
+def «fileConfig.GetOpAMPConfig» : Nat := 553
+def «fileConfig.GetParentIdFieldNames» : Nat := 554
+def «fileConfig.GetPeerListenAddr» : Nat := 555
+def «fileConfig.GetPeerManagementType» : Nat := 556
+def «fileConfig.GetPeerTimeout» : Nat := 557
+def «fileConfig.GetPeers» : Nat := 558
+def «fileConfig.GetPrometheusMetricsConfig» : Nat := 559
+def «fileConfig.GetQueryAuthToken» : Nat := 560
+def «fileConfig.GetRedisAuthCode» : Nat := 561
+def «fileConfig.GetRedisClusterHosts» : Nat := 562
+def «fileConfig.GetRedisDatabase» : Nat := 563
+def «fileConfig.GetRedisHost» : Nat := 564
+def «fileConfig.GetRedisIdentifier» : Nat := 565
+def «fileConfig.GetRedisPassword» : Nat := 566
+def «fileConfig.GetRedisPeerManagement» : Nat := 567
+def «fileConfig.GetRedisPrefix» : Nat := 568
+def «fileConfig.GetRedisUsername» : Nat := 569
+def «fileConfig.GetSampleCacheConfig» : Nat := 570
+def «fileConfig.GetSamplerConfigForDestName» : Nat := 571
+def «fileConfig.GetSamplingKeyFieldsForDestName» : Nat := 572
+def «fileConfig.GetStdoutLoggerConfig» : Nat := 573
+def «fileConfig.GetStressReliefConfig» : Nat := 574
+def «fileConfig.GetTraceIdFieldNames» : Nat := 575
+def «fileConfig.GetTracesConfig» : Nat := 576
+def «fileConfig.GetUseIPV6Identifier» : Nat := 577
+def «fileConfig.GetUseTLS» : Nat := 578
+def «fileConfig.GetUseTLSInsecure» : Nat := 579
+def «fileConfig.RegisterReloadCallback» : Nat := 580
+def «fileConfig.Reload» : Nat := 581
+def «flatten» : Nat := 582
+def «formatFromFilename» : Nat := 583
+def «formatFromResponse» : Nat := 584
+def «getAPIKeyAndDatasetFromMetadata» : Nat := 585
+def «getBytesFor» : Nat := 586
+def «getConfigDataForLocations» : Nat := 587
+def «getDatasetFromRequest» : Nat := 588
+def «getDefaultTrueValue» : Nat := 589
+def «getEventTime» : Nat := 590
+def «getFirstValueFromMetadata» : Nat := 591
+def «getIdentifierFromInterface» : Nat := 592
+def «getMetricType» : Nat := 593
+def «getPeerManagementConfig» : Nat := 594
+def «getRefineryTelemetryConfig» : Nat := 595
+def «getSharedDynsamplerAndRecorder» : Nat := 596
+def «getUserAgentFromRequest» : Nat := 597
+def «hashList» : Nat := 598
+def «init» : Nat := 599
+def «iopLogger.Debug» : Nat := 600
+def «iopLogger.Error» : Nat := 601
+def «iopLogger.Info» : Nat := 602
+def «isString» : Nat := 603
+def «isVersionDeprecated» : Nat := 604
+def «keptTraceCacheEntry.Count» : Nat := 605
+def «keptTraceCacheEntry.DescendantCount» : Nat := 606
+def «keptTraceCacheEntry.Kept» : Nat := 607
+def «keptTraceCacheEntry.Rate» : Nat := 608
+def «keptTraceCacheEntry.SpanCount» : Nat := 609
+def «keptTraceCacheEntry.SpanEventCount» : Nat := 610
+def «keptTraceCacheEntry.SpanLinkCount» : Nat := 611
+def «load» : Nat := 612
+def «loadConfigsInto» : Nat := 613
+def «loadConfigsIntoMap» : Nat := 614
+def «loadNamedMetadata» : Nat := 615
+def «makeDecoders» : Nat := 616
+def «makeDynsamplerKey» : Nat := 617
+def «maskString» : Nat := 618
+def «mergeTraceAndSpanSampleRates» : Nat := 619
+def «mustFloat» : Nat := 620
+def «newBatchedEvents» : Nat := 621
+def «newConfigAndRules» : Nat := 622
+def «newEnvironmentCache» : Nat := 623
+def «newFileConfig» : Nat := 624
+def «newPeerCommand» : Nat := 625
+def «newSamplerMetricNames» : Nat := 626
+def «newStressReliefMessage» : Nat := 627
+def «newTraceKey» : Nat := 628
+def «parseFractionalEpoch» : Nat := 629
+def «peerCommand.marshal» : Nat := 630
+def «peerCommand.unmarshal» : Nat := 631
+def «populateConfigContents» : Nat := 632
+def «publicAddr» : Nat := 633
+def «randStringBytes» : Nat := 634
+def «recycleHTTPBodyBuffer» : Nat := 635
+def «registerCustomTraceService» : Nat := 636
+def «ruleMatchesSpanInTrace» : Nat := 637
+def «ruleMatchesTrace» : Nat := 638
+def «selectIPFromAddrs» : Nat := 639
+def «setCompareOperators» : Nat := 640
+def «setCompareOperators$1» : Nat := 641
+def «setCompareOperators$10» : Nat := 642
+def «setCompareOperators$11» : Nat := 643
+def «setCompareOperators$12» : Nat := 644
+def «setCompareOperators$13» : Nat := 645
+def «setCompareOperators$14» : Nat := 646
+def «setCompareOperators$15» : Nat := 647
+def «setCompareOperators$16» : Nat := 648
+def «setCompareOperators$17» : Nat := 649
+def «setCompareOperators$18» : Nat := 650
+def «setCompareOperators$19» : Nat := 651
+def «setCompareOperators$2» : Nat := 652
+def «setCompareOperators$20» : Nat := 653
+def «setCompareOperators$3» : Nat := 654
+def «setCompareOperators$4» : Nat := 655
+def «setCompareOperators$5» : Nat := 656
+def «setCompareOperators$6» : Nat := 657
+def «setCompareOperators$7» : Nat := 658
+def «setCompareOperators$8» : Nat := 659
+def «setCompareOperators$9» : Nat := 660
+def «setInBasedOperators» : Nat := 661
+def «setInBasedOperators$1» : Nat := 662
+def «setInBasedOperators$2» : Nat := 663
+def «setInBasedOperators$3» : Nat := 664
+def «setInBasedOperators$4» : Nat := 665
+def «setMatchStringBasedOperators» : Nat := 666
+def «setMatchStringBasedOperators$1» : Nat := 667
+def «setMatchStringBasedOperators$2» : Nat := 668
+def «setMatchStringBasedOperators$3» : Nat := 669
+def «setRegexStringMatchOperator» : Nat := 670
+def «setRegexStringMatchOperator$1» : Nat := 671
+def «statusRecorder.WriteHeader» : Nat := 672
+def «stressReliefMessage.String» : Nat := 673
+def «traceKey.build» : Nat := 674
+def «translatedTraceServiceRequest.ProtoMessage» : Nat := 675
+def «translatedTraceServiceRequest.Reset» : Nat := 676
+def «translatedTraceServiceRequest.String» : Nat := 677
+def «translatedTraceServiceRequest.Unmarshal» : Nat := 678
+def «tryConvertToFloat» : Nat := 679
+def «tryConvertToInt» : Nat := 680
+def «unmarshal» : Nat := 681
+def «unmarshalStressReliefMessage» : Nat := 682
+def «validateConfigs» : Nat := 683
+def «validateDatatype» : Nat := 684
+def «validateRules» : Nat := 685
+def «writeYAMLToFile» : Nat := 686
 end F
 
-def locNames : List String := ["InMemCollector.Config", "InMemCollector.Logger", "InMemCollector.Clock", "InMemCollector.Tracer", "InMemCollector.Health", "InMemCollector.Sharder", "InMemCollector.Transmission", "InMemCollector.PeerTransmission", "InMemCollector.PubSub", "InMemCollector.Metrics", "InMemCollector.SamplerFactory", "InMemCollector.StressRelief", "InMemCollector.Peers", "InMemCollector.TestMode", "InMemCollector.BlockOnAddSpan", "InMemCollector.workers", "InMemCollector.mutex", "InMemCollector.monitorWG", "InMemCollector.workersWG", "InMemCollector.sendTracesWG", "InMemCollector.reload", "InMemCollector.tracesToSend", "InMemCollector.done", "InMemCollector.hostname", "InMemCollector.memMetricSample", "CollectorWorker.ID", "CollectorWorker.parent", "CollectorWorker.incoming", "CollectorWorker.fromPeer", "CollectorWorker.sendEarly", "CollectorWorker.pause", "CollectorWorker.reload", "CollectorWorker.cache", "CollectorWorker.sampleCache", "CollectorWorker.datasetSamplers", "CollectorWorker.lastCacheSize", "CollectorWorker.localSpansWaiting", "CollectorWorker.localSpanReceived", "CollectorWorker.localSpanProcessed", "CollectorWorker.healthCheckInAt", "StressRelief.RefineryMetrics", "StressRelief.Config", "StressRelief.Logger", "StressRelief.Health", "StressRelief.PubSub", "StressRelief.Peer", "StressRelief.Clock", "StressRelief.Done", "StressRelief.mode", "StressRelief.hostID", "StressRelief.activateLevel", "StressRelief.deactivateLevel", "StressRelief.sampleRate", "StressRelief.upperBound", "StressRelief.overallStressLevel", "StressRelief.reason", "StressRelief.formula", "StressRelief.stressed", "StressRelief.stayOnUntil", "StressRelief.minDuration", "StressRelief.topic", "StressRelief.algorithms", "StressRelief.lock", "StressRelief.stressLevels", "StressRelief.disableStressLevelReport", "CuckooTraceChecker.current", "CuckooTraceChecker.current*", "CuckooTraceChecker.future", "CuckooTraceChecker.future*", "CuckooTraceChecker.mut", "CuckooTraceChecker.capacity", "CuckooTraceChecker.met", "CuckooTraceChecker.addch", "CuckooTraceChecker.done", "CuckooTraceChecker.shutdownWG", "cuckooSentCache.met", "cuckooSentCache.kept", "cuckooSentCache.dropped", "cuckooSentCache.recentDroppedIDs", "cuckooSentCache.cfg", "cuckooSentCache.done", "cuckooSentCache.shutdownWG", "cuckooSentCache.keptReasons", "Router.Config", "Router.Logger", "Router.Health", "Router.HTTPTransport", "Router.UpstreamTransmission", "Router.PeerTransmission", "Router.Sharder", "Router.Collector", "Router.Metrics", "Router.Tracer", "Router.versionStr", "Router.proxyClient", "Router.routerType", "Router.iopLogger", "Router.zstdDecoder", "Router.server", "Router.grpcServer", "Router.doneWG", "Router.donech", "Router.environmentCache", "Router.hsrv", "Router.metricsNames", "environmentCache.mutex", "environmentCache.items", "environmentCache.ttl", "environmentCache.getFn", "eventBatch.mutex", "eventBatch.events", "eventBatch.startTime", "DirectTransmission.Config", "DirectTransmission.Logger", "DirectTransmission.Version", "DirectTransmission.Metrics", "DirectTransmission.Transport", "DirectTransmission.Clock", "DirectTransmission.transmitType", "DirectTransmission.enableCompression", "DirectTransmission.maxBatchSize", "DirectTransmission.batchTimeout", "DirectTransmission.batchSendTimeout", "DirectTransmission.additionalHeaders", "DirectTransmission.eventBatches", "DirectTransmission.batchMutex", "DirectTransmission.dispatchPool", "DirectTransmission.stop", "DirectTransmission.stopWG", "DirectTransmission.httpClient", "DirectTransmission.userAgent", "DirectTransmission.metricKeys", "RedisPubsubPeers.Config", "RedisPubsubPeers.Metrics", "RedisPubsubPeers.Logger", "RedisPubsubPeers.PubSub", "RedisPubsubPeers.Clock", "RedisPubsubPeers.InstanceID", "RedisPubsubPeers.Done", "RedisPubsubPeers.peers", "RedisPubsubPeers.hash", "RedisPubsubPeers.cbMut", "RedisPubsubPeers.callbacks", "RedisPubsubPeers.sub", "RedisPubsubPeers.topic", "fileConfig.mainConfig", "fileConfig.mainHash", "fileConfig.rulesConfig", "fileConfig.rulesHash", "fileConfig.opts", "fileConfig.callbacks", "fileConfig.mux", "fileConfig.lastLoadTime", "ConfigWatcher.Config", "ConfigWatcher.Logger", "ConfigWatcher.PubSub", "ConfigWatcher.Tracer", "ConfigWatcher.Clock", "ConfigWatcher.subscr", "ConfigWatcher.msgTime", "ConfigWatcher.done", "ConfigWatcher.mut", "ConfigWatcher.topic", "ConfigWatcher.Starter", "ConfigWatcher.Stopper", "MultiMetrics.Config", "MultiMetrics.PromMetrics", "MultiMetrics.OTelMetrics", "MultiMetrics.children", "MultiMetrics.counters", "MultiMetrics.gauges", "MultiMetrics.updowns", "MultiMetrics.stores", "MultiMetrics.metricTypes", "SamplerFactory.Config", "SamplerFactory.Logger", "SamplerFactory.Metrics", "SamplerFactory.Peers", "SamplerFactory.peerCount", "SamplerFactory.mutex", "SamplerFactory.sharedDynsamplers", "SamplerFactory.goalThroughputConfigs", "environmentCache.addItem()"]
+def locNames : List String := ["InMemCollector.Config", "InMemCollector.Logger", "InMemCollector.Clock", "InMemCollector.Tracer", "InMemCollector.Health", "InMemCollector.Sharder", "InMemCollector.Transmission", "InMemCollector.PeerTransmission", "InMemCollector.PubSub", "InMemCollector.Metrics", "InMemCollector.SamplerFactory", "InMemCollector.StressRelief", "InMemCollector.Peers", "InMemCollector.TestMode", "InMemCollector.BlockOnAddSpan", "InMemCollector.workers", "InMemCollector.mutex", "InMemCollector.monitorWG", "InMemCollector.workersWG", "InMemCollector.sendTracesWG", "InMemCollector.reload", "InMemCollector.tracesToSend", "InMemCollector.done", "InMemCollector.hostname", "InMemCollector.memMetricSample", "CollectorWorker.ID", "CollectorWorker.parent", "CollectorWorker.incoming", "CollectorWorker.fromPeer", "CollectorWorker.sendEarly", "CollectorWorker.pause", "CollectorWorker.reload", "CollectorWorker.cache", "CollectorWorker.sampleCache", "CollectorWorker.datasetSamplers", "CollectorWorker.lastCacheSize", "CollectorWorker.localSpansWaiting", "CollectorWorker.localSpanReceived", "CollectorWorker.localSpanProcessed", "CollectorWorker.healthCheckInAt", "StressRelief.RefineryMetrics", "StressRelief.Config", "StressRelief.Logger", "StressRelief.Health", "StressRelief.PubSub", "StressRelief.Peer", "StressRelief.Clock", "StressRelief.Done", "StressRelief.mode", "StressRelief.hostID", "StressRelief.activateLevel", "StressRelief.deactivateLevel", "StressRelief.sampleRate", "StressRelief.upperBound", "StressRelief.overallStressLevel", "StressRelief.reason", "StressRelief.formula", "StressRelief.stressed", "StressRelief.stayOnUntil", "StressRelief.minDuration", "StressRelief.topic", "StressRelief.algorithms", "StressRelief.lock", "StressRelief.stressLevels", "StressRelief.disableStressLevelReport", "CuckooTraceChecker.current", "CuckooTraceChecker.current*", "CuckooTraceChecker.future", "CuckooTraceChecker.future*", "CuckooTraceChecker.mut", "CuckooTraceChecker.capacity", "CuckooTraceChecker.met", "CuckooTraceChecker.addch", "CuckooTraceChecker.done", "CuckooTraceChecker.shutdownWG", "cuckooSentCache.met", "cuckooSentCache.kept", "cuckooSentCache.dropped", "cuckooSentCache.recentDroppedIDs", "cuckooSentCache.cfg", "cuckooSentCache.done", "cuckooSentCache.shutdownWG", "cuckooSentCache.keptReasons", "Router.Config", "Router.Logger", "Router.Health", "Router.HTTPTransport", "Router.UpstreamTransmission", "Router.PeerTransmission", "Router.Sharder", "Router.Collector", "Router.Metrics", "Router.Tracer", "Router.versionStr", "Router.proxyClient", "Router.routerType", "Router.iopLogger", "Router.zstdDecoder", "Router.server", "Router.grpcServer", "Router.doneWG", "Router.donech", "Router.environmentCache", "Router.hsrv", "Router.metricsNames", "environmentCache.mutex", "environmentCache.items", "environmentCache.ttl", "environmentCache.getFn", "eventBatch.mutex", "eventBatch.events", "eventBatch.startTime", "DirectTransmission.Config", "DirectTransmission.Logger", "DirectTransmission.Version", "DirectTransmission.Metrics", "DirectTransmission.Transport", "DirectTransmission.Clock", "DirectTransmission.transmitType", "DirectTransmission.enableCompression", "DirectTransmission.maxBatchSize", "DirectTransmission.batchTimeout", "DirectTransmission.batchSendTimeout", "DirectTransmission.additionalHeaders", "DirectTransmission.eventBatches", "DirectTransmission.batchMutex", "DirectTransmission.dispatchPool", "DirectTransmission.stop", "DirectTransmission.stopWG", "DirectTransmission.httpClient", "DirectTransmission.userAgent", "DirectTransmission.metricKeys", "RedisPubsubPeers.Config", "RedisPubsubPeers.Metrics", "RedisPubsubPeers.Logger", "RedisPubsubPeers.PubSub", "RedisPubsubPeers.Clock", "RedisPubsubPeers.InstanceID", "RedisPubsubPeers.Done", "RedisPubsubPeers.peers", "RedisPubsubPeers.hash", "RedisPubsubPeers.cbMut", "RedisPubsubPeers.callbacks", "RedisPubsubPeers.sub", "RedisPubsubPeers.topic", "fileConfig.mainConfig", "fileConfig.mainHash", "fileConfig.rulesConfig", "fileConfig.rulesHash", "fileConfig.opts", "fileConfig.callbacks", "fileConfig.mux", "fileConfig.lastLoadTime", "ConfigWatcher.Config", "ConfigWatcher.Logger", "ConfigWatcher.PubSub", "ConfigWatcher.Tracer", "ConfigWatcher.Clock", "ConfigWatcher.subscr", "ConfigWatcher.msgTime", "ConfigWatcher.done", "ConfigWatcher.mut", "ConfigWatcher.topic", "ConfigWatcher.Starter", "ConfigWatcher.Stopper", "MultiMetrics.Config", "MultiMetrics.PromMetrics", "MultiMetrics.OTelMetrics", "MultiMetrics.children", "MultiMetrics.counters", "MultiMetrics.gauges", "MultiMetrics.updowns", "MultiMetrics.stores", "MultiMetrics.metricTypes", "SamplerFactory.Config", "SamplerFactory.Logger", "SamplerFactory.Metrics", "SamplerFactory.Peers", "SamplerFactory.peerCount", "SamplerFactory.mutex", "SamplerFactory.sharedDynsamplers", "SamplerFactory.goalThroughputConfigs", "DeterministicSharder.Config", "DeterministicSharder.Logger", "DeterministicSharder.Peers", "DeterministicSharder.myShard", "DeterministicSharder.peers", "DeterministicSharder.hashes", "DeterministicSharder.peerLock", "environmentCache.addItem()"]
 
-def fnNames : List String := ["AccessKeyConfig.GetReplaceKey", "AccessKeyConfig.HasKeyIDs", "AccessKeyConfig.IsAccepted", "CmdEnv.ApplyTags", "CmdEnv.GetDelimiter", "CmdEnv.GetField", "CollectionConfig.GetIncomingQueueSizePerWorker", "CollectionConfig.GetMaxAlloc", "CollectionConfig.GetPeerQueueSizePerWorker", "CollectionConfig.GetWorkerCount", "CollectorWorker.GetCacheSize", "CollectorWorker.IsHealthy", "CollectorWorker.Stop", "CollectorWorker.addSpan", "CollectorWorker.addSpanFromPeer", "CollectorWorker.collect", "CollectorWorker.getLastSpanProcessed", "CollectorWorker.makeDecision", "CollectorWorker.processSpan", "CollectorWorker.processSpan$1", "CollectorWorker.sendExpiredTracesInCache", "CollectorWorker.sendExpiredTracesInCache$1", "CollectorWorker.sendTracesEarly", "CollectorWorker.sendTracesEarly$1", "ConfigHashMetrics", "ConfigWatcher.ReloadCallback", "ConfigWatcher.Start", "ConfigWatcher.Stop", "ConfigWatcher.SubscriptionListener", "ConfigWatcher.monitor", "ConvertBoolToFloat", "CuckooTraceChecker.Add", "CuckooTraceChecker.Check", "CuckooTraceChecker.Maintain", "CuckooTraceChecker.SetNextCapacity", "CuckooTraceChecker.Stop", "CuckooTraceChecker.drain", "DefaultInMemCache.Get", "DefaultInMemCache.GetAll", "DefaultInMemCache.GetCacheCapacity", "DefaultInMemCache.GetCacheEntryCount", "DefaultInMemCache.RemoveTraces", "DefaultInMemCache.Set", "DefaultInMemCache.TakeExpiredTraces", "DefaultTransmission.EnqueueEvent", "DefaultTransmission.EnqueueSpan", "DefaultTransmission.RegisterMetrics", "DefaultTransmission.Start", "DefaultTransmission.Start$1", "DefaultTransmission.Start$2", "DefaultTransmission.Stop", "DefaultTransmission.processResponses", "DefaultTransmission.reloadTransmissionBuilder", "DefaultTrue.Get", "DefaultTrue.MarshalText", "DefaultTrue.UnmarshalText", "Deprecation.GetDeprecationText", "Deprecation.GetLastVersion", "DeterministicSampler.GetKeyFields", "DeterministicSampler.GetSampleRate", "DeterministicSampler.Start", "DeterministicSampler.Start$1", "DeterministicSamplerConfig.GetSamplingFields", "DirectTransmission.EnqueueEvent", "DirectTransmission.EnqueueEvent$1", "DirectTransmission.EnqueueSpan", "DirectTransmission.Start", "DirectTransmission.Stop", "DirectTransmission.Stop$1", "DirectTransmission.dispatchStaleBatches", "DirectTransmission.dispatchStaleBatches$1", "DirectTransmission.handleBatchFailure", "DirectTransmission.handleError", "DirectTransmission.handleEventError", "DirectTransmission.registerMetrics", "DirectTransmission.sendBatch", "Duration.MarshalText", "Duration.UnmarshalText", "DynamicSampler.GetKeyFields", "DynamicSampler.GetSampleRate", "DynamicSampler.Start", "DynamicSampler.Start$1", "DynamicSamplerConfig.GetSamplingFields", "EMADynamicSampler.GetKeyFields", "EMADynamicSampler.GetSampleRate", "EMADynamicSampler.Start", "EMADynamicSampler.Start$1", "EMADynamicSamplerConfig.GetSamplingFields", "EMAThroughputSampler.GetKeyFields", "EMAThroughputSampler.GetSampleRate", "EMAThroughputSampler.Start", "EMAThroughputSampler.Start$1", "EMAThroughputSamplerConfig.GetSamplingFields", "FileConfigError.Error", "FileConfigError.HasErrors", "FilePeers.GetInstanceID", "FilePeers.GetPeers", "FilePeers.Ready", "FilePeers.RegisterUpdatedPeersCallback", "FilePeers.Start", "FilePeers.Start$1", "GetCollectorImplementation", "GetKeyFields", "GetMetricsImplementation", "Group.GetDeprecationVersion", "Group.IsDeprecated", "HoneycombLoggerConfig.GetSamplerEnabled", "InMemCollector.AddSpan", "InMemCollector.AddSpanFromPeer", "InMemCollector.GetStressedSampleRate", "InMemCollector.IsMyTrace", "InMemCollector.ProcessSpanImmediately", "InMemCollector.Start", "InMemCollector.Start$1", "InMemCollector.Stop", "InMemCollector.Stressed", "InMemCollector.addAdditionalAttributes", "InMemCollector.checkAlloc", "InMemCollector.dealWithSentTrace", "InMemCollector.getWorkerIDForTrace", "InMemCollector.isReady", "InMemCollector.monitor", "InMemCollector.reloadConfigs", "InMemCollector.send", "InMemCollector.sendReloadSignal", "InMemCollector.sendTraces", "IsLegacyAPIKey", "KeptReasonsCache.Get", "KeptReasonsCache.Set", "Level.MarshalText", "Level.String", "Level.UnmarshalText", "LoadConfigMetadata", "LoadRulesMetadata", "LogsServer.Export", "MemorySize.MarshalText", "MemorySize.UnmarshalFlag", "MemorySize.UnmarshalText", "Metadata.ClosestNamesTo", "Metadata.ClosestNamesTo$1", "Metadata.GetField", "Metadata.GetGroup", "Metadata.LoadFrom", "Metadata.Validate", "Metadata.ValidateRules", "MetricType.String", "MockCollector.AddSpan", "MockCollector.AddSpanFromPeer", "MockCollector.Flush", "MockCollector.GetStressedSampleRate", "MockCollector.ProcessSpanImmediately", "MockCollector.Stressed", "MockConfig.DetermineSamplerKey", "MockConfig.GetAccessKeyConfig", "MockConfig.GetAddCountsToRoot", "MockConfig.GetAddHostMetadataToTrace", "MockConfig.GetAddRuleReasonToTrace", "MockConfig.GetAddSpanCountToRoot", "MockConfig.GetAdditionalAttributes", "MockConfig.GetAdditionalErrorFields", "MockConfig.GetAdditionalHeaders", "MockConfig.GetAllSamplerRules", "MockConfig.GetCollectionConfig", "MockConfig.GetCollectorType", "MockConfig.GetCompressPeerCommunication", "MockConfig.GetConfigMetadata", "MockConfig.GetDatasetPrefix", "MockConfig.GetDebugServiceAddr", "MockConfig.GetEnvironmentCacheTTL", "MockConfig.GetGRPCConfig", "MockConfig.GetGRPCEnabled", "MockConfig.GetGRPCListenAddr", "MockConfig.GetGeneralConfig", "MockConfig.GetHTTPIdleTimeout", "MockConfig.GetHashes", "MockConfig.GetHealthCheckTimeout", "MockConfig.GetHoneycombAPI", "MockConfig.GetHoneycombLoggerConfig", "MockConfig.GetIdentifierInterfaceName", "MockConfig.GetIsDryRun", "MockConfig.GetListenAddr", "MockConfig.GetLoggerLevel", "MockConfig.GetLoggerType", "MockConfig.GetOTelMetricsConfig", "MockConfig.GetOTelTracingConfig", "MockConfig.GetOpAMPConfig", "MockConfig.GetParentIdFieldNames", "MockConfig.GetPeerListenAddr", "MockConfig.GetPeerManagementType", "MockConfig.GetPeerTimeout", "MockConfig.GetPeers", "MockConfig.GetPrometheusMetricsConfig", "MockConfig.GetQueryAuthToken", "MockConfig.GetRedisIdentifier", "MockConfig.GetRedisPeerManagement", "MockConfig.GetSampleCacheConfig", "MockConfig.GetSamplerConfigForDestName", "MockConfig.GetSamplingKeyFieldsForDestName", "MockConfig.GetStdoutLoggerConfig", "MockConfig.GetStressReliefConfig", "MockConfig.GetTraceIdFieldNames", "MockConfig.GetTracesConfig", "MockConfig.GetUseIPV6Identifier", "MockConfig.RegisterReloadCallback", "MockConfig.Reload", "MockConfig.SetMaxAlloc", "MockGRPCHealthWatchServer.GetSentMessages", "MockGRPCHealthWatchServer.Send", "MockMetrics.Count", "MockMetrics.Down", "MockMetrics.Gauge", "MockMetrics.Get", "MockMetrics.GetHistogramCount", "MockMetrics.Histogram", "MockMetrics.Increment", "MockMetrics.Register", "MockMetrics.Start", "MockMetrics.Stop", "MockMetrics.Store", "MockMetrics.Up", "MockPeers.GetInstanceID", "MockPeers.GetPeers", "MockPeers.Ready", "MockPeers.RegisterUpdatedPeersCallback", "MockPeers.Start", "MockPeers.UpdatePeers", "MockStressReliever.GetSampleRate", "MockStressReliever.Recalc", "MockStressReliever.ShouldSampleDeterministically", "MockStressReliever.Start", "MockStressReliever.Stressed", "MockStressReliever.UpdateFromConfig", "MockTransmission.EnqueueEvent", "MockTransmission.EnqueueSpan", "MockTransmission.GetBlock", "MockTransmission.RegisterMetrics", "MockTransmission.Start", "MockTransmission.Stop", "MultiMetrics.AddChild", "MultiMetrics.Children", "MultiMetrics.Count", "MultiMetrics.Down", "MultiMetrics.Gauge", "MultiMetrics.Get", "MultiMetrics.Histogram", "MultiMetrics.Increment", "MultiMetrics.Register", "MultiMetrics.Start", "MultiMetrics.Store", "MultiMetrics.Up", "NewCmdEnvOptions", "NewCollectorWorker", "NewConfig", "NewConfigData", "NewCuckooSentCache", "NewCuckooTraceChecker", "NewCuckooTraceChecker$1", "NewDefaultTransmission", "NewDirectTransmission", "NewInMemCache", "NewInMemCache$1", "NewInMemCache$2", "NewKeptReasonsCache", "NewKeptTraceCacheEntry", "NewLogsServer", "NewMockCollector", "NewMockPeers", "NewMultiMetrics", "NewTraceServer", "NullMetrics.Count", "NullMetrics.Down", "NullMetrics.Gauge", "NullMetrics.Get", "NullMetrics.Histogram", "NullMetrics.Increment", "NullMetrics.Register", "NullMetrics.Start", "NullMetrics.Stop", "NullMetrics.Store", "NullMetrics.Up", "OTelMetrics.Count", "OTelMetrics.Down", "OTelMetrics.Gauge", "OTelMetrics.Histogram", "OTelMetrics.Increment", "OTelMetrics.Register", "OTelMetrics.Start", "OTelMetrics.Start$1", "OTelMetrics.Start$2", "OTelMetrics.Start$3", "OTelMetrics.Start$4", "OTelMetrics.Stop", "OTelMetrics.Up", "OTelMetrics.getOrInitCounter", "OTelMetrics.getOrInitGauge", "OTelMetrics.getOrInitHistogram", "OTelMetrics.getOrInitUpDown", "ParseLevel", "PrefixMetricName", "PromMetrics.Count", "PromMetrics.Down", "PromMetrics.Gauge", "PromMetrics.Histogram", "PromMetrics.Increment", "PromMetrics.Register", "PromMetrics.Start", "PromMetrics.Start$1", "PromMetrics.Up", "RedisPubsubPeers.GetInstanceID", "RedisPubsubPeers.GetPeers", "RedisPubsubPeers.Ready", "RedisPubsubPeers.Ready$1", "RedisPubsubPeers.RegisterUpdatedPeersCallback", "RedisPubsubPeers.Start", "RedisPubsubPeers.checkHash", "RedisPubsubPeers.listen", "RedisPubsubPeers.stop", "Router.AddOTLPMuxxer", "Router.Check", "Router.LnS", "Router.LnS$1", "Router.SetEnvironmentCache", "Router.SetEnvironmentCache$1", "Router.SetType", "Router.SetVersion", "Router.Stop", "Router.Watch", "Router.alive", "Router.apiKeyProcessor", "Router.apiKeyProcessor$1", "Router.batch", "Router.debugTrace", "Router.event", "Router.getAllSamplerRules", "Router.getConfigMetadata", "Router.getEnvironmentName", "Router.getKeyID", "Router.getSamplerRules", "Router.handleOTLPFailureResponse", "Router.handlerReturnWithError", "Router.lookupEnvironment", "Router.marshalToFormat", "Router.panic", "Router.panicCatcher", "Router.panicCatcher$1", "Router.panicCatcher$2", "Router.postOTLPLogs", "Router.postOTLPTrace", "Router.processEvent", "Router.processOTLPRequest", "Router.processOTLPRequestBatchMsgp", "Router.processOTLPRequestWithMsgp", "Router.proxy", "Router.queryTokenChecker", "Router.queryTokenChecker$1", "Router.readAndCloseMaybeCompressedBody", "Router.readBodyToBuffer", "Router.readGzipBody", "Router.readUncompressedBody", "Router.readZstdBody", "Router.ready", "Router.registerMetricNames", "Router.requestLogger", "Router.requestLogger$1", "Router.requestToEvent", "Router.setResponseHeaders", "Router.setResponseHeaders$1", "Router.startGRPCHealthMonitor", "Router.startGRPCHealthMonitor$1", "Router.startGRPCHealthMonitor$2", "Router.version", "RulesBasedDownstreamSampler.GetSamplingFields", "RulesBasedDownstreamSampler.NameMeaningfulRate", "RulesBasedSampler.GetKeyFields", "RulesBasedSampler.GetSampleRate", "RulesBasedSampler.Start", "RulesBasedSampler.Start$1", "RulesBasedSamplerCondition.GetComputedField", "RulesBasedSamplerCondition.Init", "RulesBasedSamplerCondition.Init$1", "RulesBasedSamplerCondition.String", "RulesBasedSamplerCondition.setMatchesFunction", "RulesBasedSamplerCondition.setMatchesFunction$1", "RulesBasedSamplerCondition.setMatchesFunction$2", "RulesBasedSamplerConfig.GetSamplingFields", "RulesBasedSamplerConfig.String", "RulesBasedSamplerRule.String", "SampleCacheConfig.GetDroppedSizePerWorker", "SampleCacheConfig.GetKeptSizePerWorker", "SamplerFactory.ClearDynsamplers", "SamplerFactory.GetDownstreamSampler", "SamplerFactory.GetSamplerImplementationForKey", "SamplerFactory.Start", "SamplerFactory.Stop", "SamplerFactory.createSampler", "SamplerFactory.updatePeerCounts", "SerializeToYAML", "StressRelief.GetSampleRate", "StressRelief.Recalc", "StressRelief.Start", "StressRelief.Start$1", "StressRelief.Start$2", "StressRelief.Stressed", "StressRelief.UpdateFromConfig", "StressRelief.clusterStressLevel", "StressRelief.linear", "StressRelief.onStressLevelUpdate", "StressRelief.ratio", "StressRelief.sigmoid", "StressRelief.sqrt", "StressRelief.square", "TotalThroughputSampler.GetKeyFields", "TotalThroughputSampler.GetSampleRate", "TotalThroughputSampler.Start", "TotalThroughputSampler.Start$1", "TotalThroughputSamplerConfig.GetSamplingFields", "TraceServer.ExportTraceData", "TracesConfig.GetBatchTimeout", "TracesConfig.GetMaxBatchSize", "TracesConfig.GetMaxExpiredTraces", "TracesConfig.GetSendDelay", "TracesConfig.GetSendTickerValue", "TracesConfig.GetTraceTimeout", "TryConvertToBool", "V2SamplerChoice.GetSamplingFields", "V2SamplerChoice.NameMeaningfulSamplers", "V2SamplerChoice.Sampler", "V2SamplerConfig.check", "Validation.GetArgAsStringSlice", "ValidationResult.IsError", "ValidationResult.isEmpty", "ValidationResults.HasErrors", "WindowedThroughputSampler.GetKeyFields", "WindowedThroughputSampler.GetSampleRate", "WindowedThroughputSampler.Start", "WindowedThroughputSampler.Start$1", "WindowedThroughputSamplerConfig.GetSamplingFields", "WithConfigData", "WithConfigData$1", "WithRulesData", "WithRulesData$1", "addIncomingUserAgent", "applyCmdEnvTags", "applyConfigInto", "asFloat", "batchedEvent.MarshalMsg", "batchedEvent.UnmarshalMsg", "batchedEvent.getEventTime", "batchedEvent.getSampleRate", "batchedEvents.MarshalJSON", "batchedEvents.UnmarshalJSON", "batchedEvents.UnmarshalMsg", "batchedEvents.unmarshalBatchedEventFromFastJSON", "batchedEvents.unmarshalBatchedEventFromFastJSON$1", "batchedEvents.unmarshalBatchedEventFromFastJSON$2", "buildRequestURL", "checkForDeprecation", "clamp", "compare", "compareVersions", "conditionMatchesValue", "convertToString", "createDynForDynamicSampler", "createDynForEMADynamicSampler", "createDynForEMAThroughputSampler", "createDynForTotalThroughputSampler", "createDynForWindowedThroughputSampler", "cuckooDroppedRecord.Count", "cuckooDroppedRecord.DescendantCount", "cuckooDroppedRecord.Kept", "cuckooDroppedRecord.Rate", "cuckooDroppedRecord.Reason", "cuckooDroppedRecord.SpanCount", "cuckooDroppedRecord.SpanEventCount", "cuckooDroppedRecord.SpanLinkCount", "cuckooSentCache.CheckSpan", "cuckooSentCache.CheckTrace", "cuckooSentCache.Record", "cuckooSentCache.Resize", "cuckooSentCache.Stop", "cuckooSentCache.monitor", "customTraceExportHandler", "customTraceExportHandler$1", "distinctValue.AddAsString", "distinctValue.Reset", "distinctValue.Values", "dynsamplerMetricsRecorder.RecordMetrics", "dynsamplerMetricsRecorder.RegisterMetrics", "envGetterFunc", "environmentCache.addItem", "environmentCache.get", "expandEnvVarsInConfig", "expandEnvVarsInString", "expandEnvVarsInString$1", "expandEnvVarsInValues", "extractValueFromSpan", "fileConfig.DetermineSamplerKey", "fileConfig.GetAccessKeyConfig", "fileConfig.GetAddCountsToRoot", "fileConfig.GetAddHostMetadataToTrace", "fileConfig.GetAddRuleReasonToTrace", "fileConfig.GetAddSpanCountToRoot", "fileConfig.GetAdditionalAttributes", "fileConfig.GetAdditionalErrorFields", "fileConfig.GetAdditionalHeaders", "fileConfig.GetAllSamplerRules", "fileConfig.GetCollectionConfig", "fileConfig.GetCompressPeerCommunication", "fileConfig.GetConfigMetadata", "fileConfig.GetDatasetPrefix", "fileConfig.GetDebugServiceAddr", "fileConfig.GetEnvironmentCacheTTL", "fileConfig.GetGRPCConfig", "fileConfig.GetGRPCEnabled", "fileConfig.GetGRPCListenAddr", "fileConfig.GetGeneralConfig", "fileConfig.GetHTTPIdleTimeout", "fileConfig.GetHashes", "fileConfig.GetHealthCheckTimeout", "fileConfig.GetHoneycombAPI", "fileConfig.GetHoneycombLoggerConfig", "fileConfig.GetIdentifierInterfaceName", "fileConfig.GetIsDryRun", "fileConfig.GetListenAddr", "fileConfig.GetLoggerLevel", "fileConfig.GetLoggerType", "fileConfig.GetOTelMetricsConfig", "fileConfig.GetOTelTracingConfig", "fileConfig.GetOpAMPConfig", "fileConfig.GetParentIdFieldNames", "fileConfig.GetPeerListenAddr", "fileConfig.GetPeerManagementType", "fileConfig.GetPeerTimeout", "fileConfig.GetPeers", "fileConfig.GetPrometheusMetricsConfig", "fileConfig.GetQueryAuthToken", "fileConfig.GetRedisAuthCode", "fileConfig.GetRedisClusterHosts", "fileConfig.GetRedisDatabase", "fileConfig.GetRedisHost", "fileConfig.GetRedisIdentifier", "fileConfig.GetRedisPassword", "fileConfig.GetRedisPeerManagement", "fileConfig.GetRedisPrefix", "fileConfig.GetRedisUsername", "fileConfig.GetSampleCacheConfig", "fileConfig.GetSamplerConfigForDestName", "fileConfig.GetSamplingKeyFieldsForDestName", "fileConfig.GetStdoutLoggerConfig", "fileConfig.GetStressReliefConfig", "fileConfig.GetTraceIdFieldNames", "fileConfig.GetTracesConfig", "fileConfig.GetUseIPV6Identifier", "fileConfig.GetUseTLS", "fileConfig.GetUseTLSInsecure", "fileConfig.RegisterReloadCallback", "fileConfig.Reload", "flatten", "formatFromFilename", "formatFromResponse", "getAPIKeyAndDatasetFromMetadata", "getBytesFor", "getConfigDataForLocations", "getDatasetFromRequest", "getDefaultTrueValue", "getEventTime", "getFirstValueFromMetadata", "getIdentifierFromInterface", "getMetricType", "getPeerManagementConfig", "getRefineryTelemetryConfig", "getSharedDynsamplerAndRecorder", "getUserAgentFromRequest", "hashList", "init", "iopLogger.Debug", "iopLogger.Error", "iopLogger.Info", "isString", "isVersionDeprecated", "keptTraceCacheEntry.Count", "keptTraceCacheEntry.DescendantCount", "keptTraceCacheEntry.Kept", "keptTraceCacheEntry.Rate", "keptTraceCacheEntry.SpanCount", "keptTraceCacheEntry.SpanEventCount", "keptTraceCacheEntry.SpanLinkCount", "load", "loadConfigsInto", "loadConfigsIntoMap", "loadNamedMetadata", "makeDecoders", "makeDynsamplerKey", "maskString", "mergeTraceAndSpanSampleRates", "mustFloat", "newBatchedEvents", "newConfigAndRules", "newEnvironmentCache", "newFileConfig", "newPeerCommand", "newSamplerMetricNames", "newStressReliefMessage", "newTraceKey", "parseFractionalEpoch", "peerCommand.marshal", "peerCommand.unmarshal", "populateConfigContents", "publicAddr", "randStringBytes", "recycleHTTPBodyBuffer", "registerCustomTraceService", "ruleMatchesSpanInTrace", "ruleMatchesTrace", "selectIPFromAddrs", "setCompareOperators", "setCompareOperators$1", "setCompareOperators$10", "setCompareOperators$11", "setCompareOperators$12", "setCompareOperators$13", "setCompareOperators$14", "setCompareOperators$15", "setCompareOperators$16", "setCompareOperators$17", "setCompareOperators$18", "setCompareOperators$19", "setCompareOperators$2", "setCompareOperators$20", "setCompareOperators$3", "setCompareOperators$4", "setCompareOperators$5", "setCompareOperators$6", "setCompareOperators$7", "setCompareOperators$8", "setCompareOperators$9", "setInBasedOperators", "setInBasedOperators$1", "setInBasedOperators$2", "setInBasedOperators$3", "setInBasedOperators$4", "setMatchStringBasedOperators", "setMatchStringBasedOperators$1", "setMatchStringBasedOperators$2", "setMatchStringBasedOperators$3", "setRegexStringMatchOperator", "setRegexStringMatchOperator$1", "statusRecorder.WriteHeader", "stressReliefMessage.String", "traceKey.build", "translatedTraceServiceRequest.ProtoMessage", "translatedTraceServiceRequest.Reset", "translatedTraceServiceRequest.String", "translatedTraceServiceRequest.Unmarshal", "tryConvertToFloat", "tryConvertToInt", "unmarshal", "unmarshalStressReliefMessage", "validateConfigs", "validateDatatype", "validateRules", "writeYAMLToFile"]
+def fnNames : List String := ["AccessKeyConfig.GetReplaceKey", "AccessKeyConfig.HasKeyIDs", "AccessKeyConfig.IsAccepted", "CmdEnv.ApplyTags", "CmdEnv.GetDelimiter", "CmdEnv.GetField", "CollectionConfig.GetIncomingQueueSizePerWorker", "CollectionConfig.GetMaxAlloc", "CollectionConfig.GetPeerQueueSizePerWorker", "CollectionConfig.GetWorkerCount", "CollectorWorker.GetCacheSize", "CollectorWorker.IsHealthy", "CollectorWorker.Stop", "CollectorWorker.addSpan", "CollectorWorker.addSpanFromPeer", "CollectorWorker.collect", "CollectorWorker.getLastSpanProcessed", "CollectorWorker.makeDecision", "CollectorWorker.processSpan", "CollectorWorker.processSpan$1", "CollectorWorker.sendExpiredTracesInCache", "CollectorWorker.sendExpiredTracesInCache$1", "CollectorWorker.sendTracesEarly", "CollectorWorker.sendTracesEarly$1", "ConfigHashMetrics", "ConfigWatcher.ReloadCallback", "ConfigWatcher.Start", "ConfigWatcher.Stop", "ConfigWatcher.SubscriptionListener", "ConfigWatcher.monitor", "ConvertBoolToFloat", "CuckooTraceChecker.Add", "CuckooTraceChecker.Check", "CuckooTraceChecker.Maintain", "CuckooTraceChecker.SetNextCapacity", "CuckooTraceChecker.Stop", "CuckooTraceChecker.drain", "DefaultInMemCache.Get", "DefaultInMemCache.GetAll", "DefaultInMemCache.GetCacheCapacity", "DefaultInMemCache.GetCacheEntryCount", "DefaultInMemCache.RemoveTraces", "DefaultInMemCache.Set", "DefaultInMemCache.TakeExpiredTraces", "DefaultTransmission.EnqueueEvent", "DefaultTransmission.EnqueueSpan", "DefaultTransmission.RegisterMetrics", "DefaultTransmission.Start", "DefaultTransmission.Start$1", "DefaultTransmission.Start$2", "DefaultTransmission.Stop", "DefaultTransmission.processResponses", "DefaultTransmission.reloadTransmissionBuilder", "DefaultTrue.Get", "DefaultTrue.MarshalText", "DefaultTrue.UnmarshalText", "Deprecation.GetDeprecationText", "Deprecation.GetLastVersion", "DeterministicSampler.GetKeyFields", "DeterministicSampler.GetSampleRate", "DeterministicSampler.Start", "DeterministicSampler.Start$1", "DeterministicSamplerConfig.GetSamplingFields", "DeterministicSharder.MyShard", "DeterministicSharder.Start", "DeterministicSharder.Start$1", "DeterministicSharder.Start$2", "DeterministicSharder.Start@shared", "DeterministicSharder.WhichShard", "DeterministicSharder.currentPeers", "DeterministicSharder.loadPeerList", "DeterministicSharder.loadPeerList$1", "DirectTransmission.EnqueueEvent", "DirectTransmission.EnqueueEvent$1", "DirectTransmission.EnqueueSpan", "DirectTransmission.Start", "DirectTransmission.Stop", "DirectTransmission.Stop$1", "DirectTransmission.dispatchStaleBatches", "DirectTransmission.dispatchStaleBatches$1", "DirectTransmission.handleBatchFailure", "DirectTransmission.handleError", "DirectTransmission.handleEventError", "DirectTransmission.registerMetrics", "DirectTransmission.sendBatch", "Duration.MarshalText", "Duration.UnmarshalText", "DynamicSampler.GetKeyFields", "DynamicSampler.GetSampleRate", "DynamicSampler.Start", "DynamicSampler.Start$1", "DynamicSamplerConfig.GetSamplingFields", "EMADynamicSampler.GetKeyFields", "EMADynamicSampler.GetSampleRate", "EMADynamicSampler.Start", "EMADynamicSampler.Start$1", "EMADynamicSamplerConfig.GetSamplingFields", "EMAThroughputSampler.GetKeyFields", "EMAThroughputSampler.GetSampleRate", "EMAThroughputSampler.Start", "EMAThroughputSampler.Start$1", "EMAThroughputSamplerConfig.GetSamplingFields", "FileConfigError.Error", "FileConfigError.HasErrors", "FilePeers.GetInstanceID", "FilePeers.GetPeers", "FilePeers.Ready", "FilePeers.RegisterUpdatedPeersCallback", "FilePeers.Start", "FilePeers.Start$1", "GetCollectorImplementation", "GetKeyFields", "GetMetricsImplementation", "GetSharderImplementation", "Group.GetDeprecationVersion", "Group.IsDeprecated", "HoneycombLoggerConfig.GetSamplerEnabled", "InMemCollector.AddSpan", "InMemCollector.AddSpanFromPeer", "InMemCollector.GetStressedSampleRate", "InMemCollector.IsMyTrace", "InMemCollector.ProcessSpanImmediately", "InMemCollector.Start", "InMemCollector.Start$1", "InMemCollector.Stop", "InMemCollector.Stressed", "InMemCollector.addAdditionalAttributes", "InMemCollector.checkAlloc", "InMemCollector.dealWithSentTrace", "InMemCollector.getWorkerIDForTrace", "InMemCollector.isReady", "InMemCollector.monitor", "InMemCollector.reloadConfigs", "InMemCollector.send", "InMemCollector.sendReloadSignal", "InMemCollector.sendTraces", "IsLegacyAPIKey", "KeptReasonsCache.Get", "KeptReasonsCache.Set", "Level.MarshalText", "Level.String", "Level.UnmarshalText", "LoadConfigMetadata", "LoadRulesMetadata", "LogsServer.Export", "MemorySize.MarshalText", "MemorySize.UnmarshalFlag", "MemorySize.UnmarshalText", "Metadata.ClosestNamesTo", "Metadata.ClosestNamesTo$1", "Metadata.GetField", "Metadata.GetGroup", "Metadata.LoadFrom", "Metadata.Validate", "Metadata.ValidateRules", "MetricType.String", "MockCollector.AddSpan", "MockCollector.AddSpanFromPeer", "MockCollector.Flush", "MockCollector.GetStressedSampleRate", "MockCollector.ProcessSpanImmediately", "MockCollector.Stressed", "MockConfig.DetermineSamplerKey", "MockConfig.GetAccessKeyConfig", "MockConfig.GetAddCountsToRoot", "MockConfig.GetAddHostMetadataToTrace", "MockConfig.GetAddRuleReasonToTrace", "MockConfig.GetAddSpanCountToRoot", "MockConfig.GetAdditionalAttributes", "MockConfig.GetAdditionalErrorFields", "MockConfig.GetAdditionalHeaders", "MockConfig.GetAllSamplerRules", "MockConfig.GetCollectionConfig", "MockConfig.GetCollectorType", "MockConfig.GetCompressPeerCommunication", "MockConfig.GetConfigMetadata", "MockConfig.GetDatasetPrefix", "MockConfig.GetDebugServiceAddr", "MockConfig.GetEnvironmentCacheTTL", "MockConfig.GetGRPCConfig", "MockConfig.GetGRPCEnabled", "MockConfig.GetGRPCListenAddr", "MockConfig.GetGeneralConfig", "MockConfig.GetHTTPIdleTimeout", "MockConfig.GetHashes", "MockConfig.GetHealthCheckTimeout", "MockConfig.GetHoneycombAPI", "MockConfig.GetHoneycombLoggerConfig", "MockConfig.GetIdentifierInterfaceName", "MockConfig.GetIsDryRun", "MockConfig.GetListenAddr", "MockConfig.GetLoggerLevel", "MockConfig.GetLoggerType", "MockConfig.GetOTelMetricsConfig", "MockConfig.GetOTelTracingConfig", "MockConfig.GetOpAMPConfig", "MockConfig.GetParentIdFieldNames", "MockConfig.GetPeerListenAddr", "MockConfig.GetPeerManagementType", "MockConfig.GetPeerTimeout", "MockConfig.GetPeers", "MockConfig.GetPrometheusMetricsConfig", "MockConfig.GetQueryAuthToken", "MockConfig.GetRedisIdentifier", "MockConfig.GetRedisPeerManagement", "MockConfig.GetSampleCacheConfig", "MockConfig.GetSamplerConfigForDestName", "MockConfig.GetSamplingKeyFieldsForDestName", "MockConfig.GetStdoutLoggerConfig", "MockConfig.GetStressReliefConfig", "MockConfig.GetTraceIdFieldNames", "MockConfig.GetTracesConfig", "MockConfig.GetUseIPV6Identifier", "MockConfig.RegisterReloadCallback", "MockConfig.Reload", "MockConfig.SetMaxAlloc", "MockGRPCHealthWatchServer.GetSentMessages", "MockGRPCHealthWatchServer.Send", "MockMetrics.Count", "MockMetrics.Down", "MockMetrics.Gauge", "MockMetrics.Get", "MockMetrics.GetHistogramCount", "MockMetrics.Histogram", "MockMetrics.Increment", "MockMetrics.Register", "MockMetrics.Start", "MockMetrics.Stop", "MockMetrics.Store", "MockMetrics.Up", "MockPeers.GetInstanceID", "MockPeers.GetPeers", "MockPeers.Ready", "MockPeers.RegisterUpdatedPeersCallback", "MockPeers.Start", "MockPeers.UpdatePeers", "MockSharder.MyShard", "MockSharder.WhichShard", "MockStressReliever.GetSampleRate", "MockStressReliever.Recalc", "MockStressReliever.ShouldSampleDeterministically", "MockStressReliever.Start", "MockStressReliever.Stressed", "MockStressReliever.UpdateFromConfig", "MockTransmission.EnqueueEvent", "MockTransmission.EnqueueSpan", "MockTransmission.GetBlock", "MockTransmission.RegisterMetrics", "MockTransmission.Start", "MockTransmission.Stop", "MultiMetrics.AddChild", "MultiMetrics.Children", "MultiMetrics.Count", "MultiMetrics.Down", "MultiMetrics.Gauge", "MultiMetrics.Get", "MultiMetrics.Histogram", "MultiMetrics.Increment", "MultiMetrics.Register", "MultiMetrics.Start", "MultiMetrics.Store", "MultiMetrics.Up", "NewCmdEnvOptions", "NewCollectorWorker", "NewConfig", "NewConfigData", "NewCuckooSentCache", "NewCuckooTraceChecker", "NewCuckooTraceChecker$1", "NewDefaultTransmission", "NewDirectTransmission", "NewInMemCache", "NewInMemCache$1", "NewInMemCache$2", "NewKeptReasonsCache", "NewKeptTraceCacheEntry", "NewLogsServer", "NewMockCollector", "NewMockPeers", "NewMultiMetrics", "NewTraceServer", "NullMetrics.Count", "NullMetrics.Down", "NullMetrics.Gauge", "NullMetrics.Get", "NullMetrics.Histogram", "NullMetrics.Increment", "NullMetrics.Register", "NullMetrics.Start", "NullMetrics.Stop", "NullMetrics.Store", "NullMetrics.Up", "OTelMetrics.Count", "OTelMetrics.Down", "OTelMetrics.Gauge", "OTelMetrics.Histogram", "OTelMetrics.Increment", "OTelMetrics.Register", "OTelMetrics.Start", "OTelMetrics.Start$1", "OTelMetrics.Start$2", "OTelMetrics.Start$3", "OTelMetrics.Start$4", "OTelMetrics.Stop", "OTelMetrics.Up", "OTelMetrics.getOrInitCounter", "OTelMetrics.getOrInitGauge", "OTelMetrics.getOrInitHistogram", "OTelMetrics.getOrInitUpDown", "ParseLevel", "PrefixMetricName", "PromMetrics.Count", "PromMetrics.Down", "PromMetrics.Gauge", "PromMetrics.Histogram", "PromMetrics.Increment", "PromMetrics.Register", "PromMetrics.Start", "PromMetrics.Start$1", "PromMetrics.Up", "RedisPubsubPeers.GetInstanceID", "RedisPubsubPeers.GetPeers", "RedisPubsubPeers.Ready", "RedisPubsubPeers.Ready$1", "RedisPubsubPeers.RegisterUpdatedPeersCallback", "RedisPubsubPeers.Start", "RedisPubsubPeers.checkHash", "RedisPubsubPeers.listen", "RedisPubsubPeers.stop", "Router.AddOTLPMuxxer", "Router.Check", "Router.LnS", "Router.LnS$1", "Router.SetEnvironmentCache", "Router.SetEnvironmentCache$1", "Router.SetType", "Router.SetVersion", "Router.Stop", "Router.Watch", "Router.alive", "Router.apiKeyProcessor", "Router.apiKeyProcessor$1", "Router.batch", "Router.debugTrace", "Router.event", "Router.getAllSamplerRules", "Router.getConfigMetadata", "Router.getEnvironmentName", "Router.getKeyID", "Router.getSamplerRules", "Router.handleOTLPFailureResponse", "Router.handlerReturnWithError", "Router.lookupEnvironment", "Router.marshalToFormat", "Router.panic", "Router.panicCatcher", "Router.panicCatcher$1", "Router.panicCatcher$2", "Router.postOTLPLogs", "Router.postOTLPTrace", "Router.processEvent", "Router.processOTLPRequest", "Router.processOTLPRequestBatchMsgp", "Router.processOTLPRequestWithMsgp", "Router.proxy", "Router.queryTokenChecker", "Router.queryTokenChecker$1", "Router.readAndCloseMaybeCompressedBody", "Router.readBodyToBuffer", "Router.readGzipBody", "Router.readUncompressedBody", "Router.readZstdBody", "Router.ready", "Router.registerMetricNames", "Router.requestLogger", "Router.requestLogger$1", "Router.requestToEvent", "Router.setResponseHeaders", "Router.setResponseHeaders$1", "Router.startGRPCHealthMonitor", "Router.startGRPCHealthMonitor$1", "Router.startGRPCHealthMonitor$2", "Router.version", "RulesBasedDownstreamSampler.GetSamplingFields", "RulesBasedDownstreamSampler.NameMeaningfulRate", "RulesBasedSampler.GetKeyFields", "RulesBasedSampler.GetSampleRate", "RulesBasedSampler.Start", "RulesBasedSampler.Start$1", "RulesBasedSamplerCondition.GetComputedField", "RulesBasedSamplerCondition.Init", "RulesBasedSamplerCondition.Init$1", "RulesBasedSamplerCondition.String", "RulesBasedSamplerCondition.setMatchesFunction", "RulesBasedSamplerCondition.setMatchesFunction$1", "RulesBasedSamplerCondition.setMatchesFunction$2", "RulesBasedSamplerConfig.GetSamplingFields", "RulesBasedSamplerConfig.String", "RulesBasedSamplerRule.String", "SampleCacheConfig.GetDroppedSizePerWorker", "SampleCacheConfig.GetKeptSizePerWorker", "SamplerFactory.ClearDynsamplers", "SamplerFactory.GetDownstreamSampler", "SamplerFactory.GetSamplerImplementationForKey", "SamplerFactory.Start", "SamplerFactory.Stop", "SamplerFactory.createSampler", "SamplerFactory.updatePeerCounts", "SerializeToYAML", "SingleServerSharder.MyShard", "SingleServerSharder.WhichShard", "SingleShard.Equals", "SingleShard.GetAddress", "SortableShardList.Equals", "SortableShardList.Len", "SortableShardList.Less", "SortableShardList.Swap", "StressRelief.GetSampleRate", "StressRelief.Recalc", "StressRelief.Start", "StressRelief.Start$1", "StressRelief.Start$2", "StressRelief.Stressed", "StressRelief.UpdateFromConfig", "StressRelief.clusterStressLevel", "StressRelief.linear", "StressRelief.onStressLevelUpdate", "StressRelief.ratio", "StressRelief.sigmoid", "StressRelief.sqrt", "StressRelief.square", "TestShard.Equals", "TestShard.GetAddress", "TotalThroughputSampler.GetKeyFields", "TotalThroughputSampler.GetSampleRate", "TotalThroughputSampler.Start", "TotalThroughputSampler.Start$1", "TotalThroughputSamplerConfig.GetSamplingFields", "TraceServer.ExportTraceData", "TracesConfig.GetBatchTimeout", "TracesConfig.GetMaxBatchSize", "TracesConfig.GetMaxExpiredTraces", "TracesConfig.GetSendDelay", "TracesConfig.GetSendTickerValue", "TracesConfig.GetTraceTimeout", "TryConvertToBool", "V2SamplerChoice.GetSamplingFields", "V2SamplerChoice.NameMeaningfulSamplers", "V2SamplerChoice.Sampler", "V2SamplerConfig.check", "Validation.GetArgAsStringSlice", "ValidationResult.IsError", "ValidationResult.isEmpty", "ValidationResults.HasErrors", "WindowedThroughputSampler.GetKeyFields", "WindowedThroughputSampler.GetSampleRate", "WindowedThroughputSampler.Start", "WindowedThroughputSampler.Start$1", "WindowedThroughputSamplerConfig.GetSamplingFields", "WithConfigData", "WithConfigData$1", "WithRulesData", "WithRulesData$1", "addIncomingUserAgent", "applyCmdEnvTags", "applyConfigInto", "asFloat", "batchedEvent.MarshalMsg", "batchedEvent.UnmarshalMsg", "batchedEvent.getEventTime", "batchedEvent.getSampleRate", "batchedEvents.MarshalJSON", "batchedEvents.UnmarshalJSON", "batchedEvents.UnmarshalMsg", "batchedEvents.unmarshalBatchedEventFromFastJSON", "batchedEvents.unmarshalBatchedEventFromFastJSON$1", "batchedEvents.unmarshalBatchedEventFromFastJSON$2", "buildRequestURL", "checkForDeprecation", "clamp", "compare", "compareVersions", "conditionMatchesValue", "convertToString", "createDynForDynamicSampler", "createDynForEMADynamicSampler", "createDynForEMAThroughputSampler", "createDynForTotalThroughputSampler", "createDynForWindowedThroughputSampler", "cuckooDroppedRecord.Count", "cuckooDroppedRecord.DescendantCount", "cuckooDroppedRecord.Kept", "cuckooDroppedRecord.Rate", "cuckooDroppedRecord.Reason", "cuckooDroppedRecord.SpanCount", "cuckooDroppedRecord.SpanEventCount", "cuckooDroppedRecord.SpanLinkCount", "cuckooSentCache.CheckSpan", "cuckooSentCache.CheckTrace", "cuckooSentCache.Record", "cuckooSentCache.Resize", "cuckooSentCache.Stop", "cuckooSentCache.monitor", "customTraceExportHandler", "customTraceExportHandler$1", "detShard.Equals", "detShard.GetAddress", "detShard.GetHashesFor", "distinctValue.AddAsString", "distinctValue.Reset", "distinctValue.Values", "dynsamplerMetricsRecorder.RecordMetrics", "dynsamplerMetricsRecorder.RegisterMetrics", "envGetterFunc", "environmentCache.addItem", "environmentCache.get", "expandEnvVarsInConfig", "expandEnvVarsInString", "expandEnvVarsInString$1", "expandEnvVarsInValues", "extractValueFromSpan", "fileConfig.DetermineSamplerKey", "fileConfig.GetAccessKeyConfig", "fileConfig.GetAddCountsToRoot", "fileConfig.GetAddHostMetadataToTrace", "fileConfig.GetAddRuleReasonToTrace", "fileConfig.GetAddSpanCountToRoot", "fileConfig.GetAdditionalAttributes", "fileConfig.GetAdditionalErrorFields", "fileConfig.GetAdditionalHeaders", "fileConfig.GetAllSamplerRules", "fileConfig.GetCollectionConfig", "fileConfig.GetCompressPeerCommunication", "fileConfig.GetConfigMetadata", "fileConfig.GetDatasetPrefix", "fileConfig.GetDebugServiceAddr", "fileConfig.GetEnvironmentCacheTTL", "fileConfig.GetGRPCConfig", "fileConfig.GetGRPCEnabled", "fileConfig.GetGRPCListenAddr", "fileConfig.GetGeneralConfig", "fileConfig.GetHTTPIdleTimeout", "fileConfig.GetHashes", "fileConfig.GetHealthCheckTimeout", "fileConfig.GetHoneycombAPI", "fileConfig.GetHoneycombLoggerConfig", "fileConfig.GetIdentifierInterfaceName", "fileConfig.GetIsDryRun", "fileConfig.GetListenAddr", "fileConfig.GetLoggerLevel", "fileConfig.GetLoggerType", "fileConfig.GetOTelMetricsConfig", "fileConfig.GetOTelTracingConfig", "fileConfig.GetOpAMPConfig", "fileConfig.GetParentIdFieldNames", "fileConfig.GetPeerListenAddr", "fileConfig.GetPeerManagementType", "fileConfig.GetPeerTimeout", "fileConfig.GetPeers", "fileConfig.GetPrometheusMetricsConfig", "fileConfig.GetQueryAuthToken", "fileConfig.GetRedisAuthCode", "fileConfig.GetRedisClusterHosts", "fileConfig.GetRedisDatabase", "fileConfig.GetRedisHost", "fileConfig.GetRedisIdentifier", "fileConfig.GetRedisPassword", "fileConfig.GetRedisPeerManagement", "fileConfig.GetRedisPrefix", "fileConfig.GetRedisUsername", "fileConfig.GetSampleCacheConfig", "fileConfig.GetSamplerConfigForDestName", "fileConfig.GetSamplingKeyFieldsForDestName", "fileConfig.GetStdoutLoggerConfig", "fileConfig.GetStressReliefConfig", "fileConfig.GetTraceIdFieldNames", "fileConfig.GetTracesConfig", "fileConfig.GetUseIPV6Identifier", "fileConfig.GetUseTLS", "fileConfig.GetUseTLSInsecure", "fileConfig.RegisterReloadCallback", "fileConfig.Reload", "flatten", "formatFromFilename", "formatFromResponse", "getAPIKeyAndDatasetFromMetadata", "getBytesFor", "getConfigDataForLocations", "getDatasetFromRequest", "getDefaultTrueValue", "getEventTime", "getFirstValueFromMetadata", "getIdentifierFromInterface", "getMetricType", "getPeerManagementConfig", "getRefineryTelemetryConfig", "getSharedDynsamplerAndRecorder", "getUserAgentFromRequest", "hashList", "init", "iopLogger.Debug", "iopLogger.Error", "iopLogger.Info", "isString", "isVersionDeprecated", "keptTraceCacheEntry.Count", "keptTraceCacheEntry.DescendantCount", "keptTraceCacheEntry.Kept", "keptTraceCacheEntry.Rate", "keptTraceCacheEntry.SpanCount", "keptTraceCacheEntry.SpanEventCount", "keptTraceCacheEntry.SpanLinkCount", "load", "loadConfigsInto", "loadConfigsIntoMap", "loadNamedMetadata", "makeDecoders", "makeDynsamplerKey", "maskString", "mergeTraceAndSpanSampleRates", "mustFloat", "newBatchedEvents", "newConfigAndRules", "newEnvironmentCache", "newFileConfig", "newPeerCommand", "newSamplerMetricNames", "newStressReliefMessage", "newTraceKey", "parseFractionalEpoch", "peerCommand.marshal", "peerCommand.unmarshal", "populateConfigContents", "publicAddr", "randStringBytes", "recycleHTTPBodyBuffer", "registerCustomTraceService", "ruleMatchesSpanInTrace", "ruleMatchesTrace", "selectIPFromAddrs", "setCompareOperators", "setCompareOperators$1", "setCompareOperators$10", "setCompareOperators$11", "setCompareOperators$12", "setCompareOperators$13", "setCompareOperators$14", "setCompareOperators$15", "setCompareOperators$16", "setCompareOperators$17", "setCompareOperators$18", "setCompareOperators$19", "setCompareOperators$2", "setCompareOperators$20", "setCompareOperators$3", "setCompareOperators$4", "setCompareOperators$5", "setCompareOperators$6", "setCompareOperators$7", "setCompareOperators$8", "setCompareOperators$9", "setInBasedOperators", "setInBasedOperators$1", "setInBasedOperators$2", "setInBasedOperators$3", "setInBasedOperators$4", "setMatchStringBasedOperators", "setMatchStringBasedOperators$1", "setMatchStringBasedOperators$2", "setMatchStringBasedOperators$3", "setRegexStringMatchOperator", "setRegexStringMatchOperator$1", "statusRecorder.WriteHeader", "stressReliefMessage.String", "traceKey.build", "translatedTraceServiceRequest.ProtoMessage", "translatedTraceServiceRequest.Reset", "translatedTraceServiceRequest.String", "translatedTraceServiceRequest.Unmarshal", "tryConvertToFloat", "tryConvertToInt", "unmarshal", "unmarshalStressReliefMessage", "validateConfigs", "validateDatatype", "validateRules", "writeYAMLToFile"]
 
 def declaredFields : List Nat := [
   L.«InMemCollector.Config»,
@@ -1045,7 +1077,14 @@ def declaredFields : List Nat := [
   L.«SamplerFactory.peerCount»,
   L.«SamplerFactory.mutex»,
   L.«SamplerFactory.sharedDynsamplers»,
-  L.«SamplerFactory.goalThroughputConfigs»]
+  L.«SamplerFactory.goalThroughputConfigs»,
+  L.«DeterministicSharder.Config»,
+  L.«DeterministicSharder.Logger»,
+  L.«DeterministicSharder.Peers»,
+  L.«DeterministicSharder.myShard»,
+  L.«DeterministicSharder.peers»,
+  L.«DeterministicSharder.hashes»,
+  L.«DeterministicSharder.peerLock»]
 
 def accessFacts : List Fact := [
   ⟨L.«InMemCollector.Config», F.«CollectorWorker.collect», .read, [], false⟩,
@@ -1867,6 +1906,28 @@ def accessFacts : List Fact := [
   ⟨L.«SamplerFactory.goalThroughputConfigs», F.«SamplerFactory.Start», .write, [], false⟩,
   ⟨L.«SamplerFactory.goalThroughputConfigs», F.«SamplerFactory.createSampler», .write, [(L.«SamplerFactory.mutex», .ex)], false⟩,
   ⟨L.«SamplerFactory.goalThroughputConfigs», F.«SamplerFactory.updatePeerCounts», .read, [(L.«SamplerFactory.mutex», .ex)], false⟩,
+  ⟨L.«DeterministicSharder.Logger», F.«DeterministicSharder.Start$1», .read, [], false⟩,
+  ⟨L.«DeterministicSharder.Logger», F.«DeterministicSharder.Start$2», .read, [], false⟩,
+  ⟨L.«DeterministicSharder.Logger», F.«DeterministicSharder.Start», .read, [], false⟩,
+  ⟨L.«DeterministicSharder.Logger», F.«DeterministicSharder.loadPeerList», .read, [(L.«DeterministicSharder.peerLock», .sh)], false⟩,
+  ⟨L.«DeterministicSharder.Logger», F.«DeterministicSharder.loadPeerList», .read, [], false⟩,
+  ⟨L.«DeterministicSharder.Peers», F.«DeterministicSharder.Start», .read, [], false⟩,
+  ⟨L.«DeterministicSharder.Peers», F.«DeterministicSharder.loadPeerList», .read, [], false⟩,
+  ⟨L.«DeterministicSharder.myShard», F.«DeterministicSharder.MyShard», .read, [], false⟩,
+  ⟨L.«DeterministicSharder.myShard», F.«DeterministicSharder.Start», .write, [], false⟩,
+  ⟨L.«DeterministicSharder.peers», F.«DeterministicSharder.WhichShard», .read, [(L.«DeterministicSharder.peerLock», .sh)], false⟩,
+  ⟨L.«DeterministicSharder.peers», F.«DeterministicSharder.currentPeers», .read, [(L.«DeterministicSharder.peerLock», .sh)], false⟩,
+  ⟨L.«DeterministicSharder.peers», F.«DeterministicSharder.loadPeerList», .read, [(L.«DeterministicSharder.peerLock», .sh)], false⟩,
+  ⟨L.«DeterministicSharder.peers», F.«DeterministicSharder.loadPeerList», .write, [(L.«DeterministicSharder.peerLock», .ex)], false⟩,
+  ⟨L.«DeterministicSharder.hashes», F.«DeterministicSharder.WhichShard», .read, [(L.«DeterministicSharder.peerLock», .sh)], false⟩,
+  ⟨L.«DeterministicSharder.hashes», F.«DeterministicSharder.loadPeerList», .write, [(L.«DeterministicSharder.peerLock», .ex)], false⟩,
+  ⟨L.«DeterministicSharder.peerLock», F.«DeterministicSharder.WhichShard», .atomic, [(L.«DeterministicSharder.peerLock», .sh)], false⟩,
+  ⟨L.«DeterministicSharder.peerLock», F.«DeterministicSharder.WhichShard», .atomic, [], false⟩,
+  ⟨L.«DeterministicSharder.peerLock», F.«DeterministicSharder.currentPeers», .atomic, [(L.«DeterministicSharder.peerLock», .sh)], false⟩,
+  ⟨L.«DeterministicSharder.peerLock», F.«DeterministicSharder.currentPeers», .atomic, [], false⟩,
+  ⟨L.«DeterministicSharder.peerLock», F.«DeterministicSharder.loadPeerList», .atomic, [(L.«DeterministicSharder.peerLock», .ex)], false⟩,
+  ⟨L.«DeterministicSharder.peerLock», F.«DeterministicSharder.loadPeerList», .atomic, [(L.«DeterministicSharder.peerLock», .sh)], false⟩,
+  ⟨L.«DeterministicSharder.peerLock», F.«DeterministicSharder.loadPeerList», .atomic, [], false⟩,
   ⟨L.«environmentCache.addItem()», F.«environmentCache.get», .write, [(L.«environmentCache.mutex», .ex)], false⟩]
 
 /-- selectors named like a tracked field whose base expression has a type the stub importer
